@@ -12,9 +12,9 @@ EXPLANATION = (
     "(a) every loop that mutates a graph iterates a materialised sequence, so WHERE is evaluated once on the pre-state; "
     "(b) in evalModify no path performs an insertion and later a deletion (all deletions of all solutions first); "
     "(c) the template blank-node map is created per _fillTemplate call and every call passes the per-solution binding; "
-    "(d) a template triple is emitted only under `is not None` of all three components; (e) evalUpdate runs operations in "
-    "request order and has an arm for every update node; (f) the source==target short-circuit dominates the destructive "
-    "steps of ADD/MOVE/COPY and MOVE/COPY clear, copy, drop in that order; (g) quads blocks naming the same graph accumulate. "
+    "(d) a template triple is emitted only where all three components are known to be not None (a test in _fillTemplate or in a predicate helper it calls on them); (e) evalUpdate runs operations in "
+    "request order and has an arm for every update node; (f) every feasible path to a destructive step of ADD/MOVE/COPY has found source != target, "
+    "and MOVE/COPY clear, copy, drop in that order; (g) quads blocks naming the same graph accumulate. "
     "(i) writes outside GRAPH target the real default graph; (j) path-sensitive reaching definitions of the query context in evalModify decide which graph is active for WHERE and for the templates under each USING/WITH presence combination. GRAPH-template targeting per solution is semantic and not decided."
 )
 
@@ -107,16 +107,45 @@ def _lazy_reason(e: ast.AST, fn: ast.FunctionDef, mod, algebra_params: set[str],
             return None
         if depth > 3:
             return "alias chain too long"
-        vals = []
+        # every binding of the name in the function: a plain assignment, or one position of a tuple that is unpacked - from a tuple display, or
+        # from what a function of the module returns when each of its returns is a tuple display (the item at that position, judged in the callee)
+        vals: list[tuple[ast.AST, ast.FunctionDef, set[str]]] = []
         for n in own_nodes(fn):
-            if isinstance(n, ast.Assign) and any(isinstance(t, ast.Name) and t.id == e.id for t in n.targets):
-                vals.append(n.value)
             if isinstance(n, ast.AnnAssign) and isinstance(n.target, ast.Name) and n.target.id == e.id and n.value is not None:
-                vals.append(n.value)
+                vals.append((n.value, fn, algebra_params))
+            if not isinstance(n, ast.Assign):
+                continue
+            for t in n.targets:
+                if isinstance(t, ast.Name) and t.id == e.id:
+                    vals.append((n.value, fn, algebra_params))
+                elif isinstance(t, (ast.Tuple, ast.List)) and any(isinstance(x, ast.Name) and x.id == e.id for x in t.elts):
+                    if any(isinstance(x, ast.Starred) for x in t.elts):
+                        return "name %s is bound by a starred unpacking" % e.id
+                    i = [k for k, x in enumerate(t.elts) if isinstance(x, ast.Name) and x.id == e.id][0]
+                    v = n.value
+                    if isinstance(v, (ast.Tuple, ast.List)) and len(v.elts) == len(t.elts) and not any(isinstance(x, ast.Starred) for x in v.elts):
+                        vals.append((v.elts[i], fn, algebra_params))
+                    elif isinstance(v, ast.Call) and isinstance(v.func, ast.Name) and mod.has(v.func.id) and isinstance(mod.defs[v.func.id], ast.FunctionDef):
+                        callee = mod.defs[v.func.id]
+                        rets = [r for r in own_nodes(callee) if isinstance(r, ast.Return)]
+                        if not rets or any(isinstance(x, (ast.Yield, ast.YieldFrom)) for x in own_nodes(callee)):
+                            return "%s(...) is not known to return a tuple" % v.func.id
+                        # the request parameter of the callee: the one that the call binds to a request parameter of this function
+                        cparams = [a.arg for a in callee.args.args]
+                        calg = {cparams[k] for k, a in enumerate(v.args) if k < len(cparams) and isinstance(a, ast.Name) and a.id in algebra_params}
+                        calg |= {k_.arg for k_ in v.keywords if k_.arg in cparams and isinstance(k_.value, ast.Name) and k_.value.id in algebra_params}
+                        calg -= {x.id for x in own_nodes(callee) if isinstance(x, ast.Name) and isinstance(x.ctx, ast.Store)}
+                        for r in rets:
+                            rv = r.value
+                            if not (isinstance(rv, ast.Tuple) and len(rv.elts) == len(t.elts) and not any(isinstance(x, ast.Starred) for x in rv.elts)):
+                                return "%s(...) returns %s, not a tuple display of %d items" % (v.func.id, norm(rv)[:30] if rv is not None else None, len(t.elts))
+                            vals.append((rv.elts[i], callee, calg))
+                    else:
+                        return "name %s is unpacked from %s, whose items are not known" % (e.id, norm(v)[:40])
         if not vals:
             return "name %s has no local definition" % e.id
-        for v in vals:
-            r = _lazy_reason(v, fn, mod, algebra_params, depth + 1)
+        for v, vfn, valg in vals:
+            r = _lazy_reason(v, vfn, mod, valg, depth + 1)
             if r:
                 return "%s = %s: %s" % (e.id, norm(v)[:50], r)
         return None
@@ -125,7 +154,15 @@ def _lazy_reason(e: ast.AST, fn: ast.FunctionDef, mod, algebra_params: set[str],
     return "unmodelled iterable %s" % type(e).__name__
 
 
+def _section(rep: Report, repo: Repo, f) -> None:
+    """one rule = one layer (vlib.core.layer): a rule that loses its anchor on one view of the tree does not take its neighbours with it"""
+    from vlib.core import layer
+    layer(rep, lambda _repo, _rep: f(), repo)
+
+
 def run(repo: Repo, rep: Report) -> None:
+    from vlib import h_c10 as H
+
     rep.extra["explanation"] = EXPLANATION
     up = repo.mod("rdflib.plugins.sparql.update")
     eu = repo.mod("rdflib.plugins.sparql.evalutils")
@@ -135,320 +172,362 @@ def run(repo: Repo, rep: Report) -> None:
         raise AnalysisError("expected >= 12 update evaluators, found %s" % sorted(evaluators))
     for q in evaluators:
         rep.analysed("rdflib/plugins/sparql/update.py:" + q)
-
-    # ------------------------------------------------------------------ (a)
-    rep.rule("C10.a-materialise-before-mutate",
-             "a loop in an update evaluator whose body mutates a graph iterates a materialised sequence (list/tuple/"
-             "sorted/..., a helper returning one, or part of the parsed request), never a live generator over the "
-             "store: the WHERE pattern is evaluated once, on the state before the operation", floor=8)
-    for q, f in evaluators.items():
-        alg_params = {a.arg for a in f.args.args if a.arg in ("u", "update")}
-        for loop in [n for n in own_nodes(f) if isinstance(n, (ast.For, ast.While))]:
-            if isinstance(loop, ast.While):
-                continue
-            muts = [n for s in loop.body for n in ast.walk(s) if _is_graph_mutation(repo, up.name, n)]
-            if not muts:
-                continue
-            why = _lazy_reason(loop.iter, f, up, alg_params)
-            rep.ob("C10.a-materialise-before-mutate", up, q, "for %s in %s" % (norm(loop.target), norm(loop.iter)), why is None,
-                   "iterates a materialised / request-derived sequence while mutating (%s)" % norm(muts[0])[:50] if why is None else
-                   "mutates the store (%s) while iterating a sequence that may still be reading it: %s" % (norm(muts[0])[:50], why), node=loop)
-
-    # ------------------------------------------------------------------ (b)
-    rep.rule("C10.b-delete-all-before-insert-all",
-             "in evalModify no control-flow path performs an insertion-template mutation and afterwards a "
-             "deletion-template mutation; both phases iterate the same materialised solution sequence", floor=3)
-    em = evaluators.get("evalModify")
-    if em is None:
-        raise AnalysisError("evalModify vanished")
-    g = CFG(em)
-    dels, inss = [], []
-    for n in own_nodes(em):
-        k = _is_graph_mutation(repo, up.name, n)
-        if not k:
-            continue
-        txt = norm(n)
-        # template mutations only: those fed by _fillTemplate; ctx.load of USING is a read-side preparation
-        if "_fillTemplate" not in txt:
-            continue
-        (dels if k == "DEL" else inss).append(n)
-    if not dels or not inss:
-        raise AnalysisError("evalModify: template deletions/insertions not found (dels=%d ins=%d)" % (len(dels), len(inss)))
-    for i in inss:
-        inode = g.node_of(i, up)
-        later_del = [d for d in dels if g.node_of(d, up) in g.reach(inode)]
-        rep.ob("C10.b-delete-all-before-insert-all", up, "evalModify", i, not later_del,
-               "no deletion can follow this insertion" if not later_del else
-               "a deletion (%s) can execute after this insertion (per-solution delete/insert): a triple inserted for one solution can be deleted for a later one" % norm(later_del[0])[:60], node=i)
-    # same sequence
-    seqs = set()
-    for n in dels + inss:
-        for p in up.parents(n):
-            if isinstance(p, ast.For):
-                outer = p
-            if p is em:
-                break
-        # outermost enclosing for
-        outermost = None
-        for p in up.parents(n):
-            if isinstance(p, ast.For):
-                outermost = p
-            if p is em:
-                break
-        if outermost is not None:
-            seqs.add(norm(outermost.iter))
-    rep.ob("C10.b-delete-all-before-insert-all", up, "evalModify", "delete and insert phases iterate %s" % sorted(seqs), len(seqs) == 1,
-           "one shared solution sequence" if len(seqs) == 1 else "phases iterate different sequences %s: WHERE would be evaluated twice" % sorted(seqs), node=em)
-
-    # ------------------------------------------------------------------ (c)(d)
-    rep.rule("C10.c-bnodes-fresh-per-solution",
-             "_fillTemplate creates its template-bnode map inside the call (not a module global, default argument or "
-             "parameter), and every call site in the update evaluators passes the per-solution binding of the "
-             "innermost solution loop", floor=6)
     ft = eu.func("_fillTemplate")
     rep.analysed("rdflib/plugins/sparql/evalutils.py:_fillTemplate")
-    maps = []
-    for n in own_nodes(ft):
-        if isinstance(n, (ast.Assign, ast.AnnAssign)):
-            v = n.value
-            if isinstance(v, ast.Call) and "BNode" in norm(v) and ("dict" in norm(v.func).lower()):
-                tg = n.targets[0] if isinstance(n, ast.Assign) else n.target
-                maps.append((norm(tg), n))
-            if isinstance(v, ast.Dict) and not v.keys:
-                tg = n.targets[0] if isinstance(n, ast.Assign) else n.target
-                maps.append((norm(tg), n))
-    # which map is used to rename template bnodes? the one subscripted where isinstance(x, BNode)
-    used = None
-    for n in ast.walk(ft):
-        if isinstance(n, ast.IfExp) and "isinstance" in norm(n.test) and "BNode" in norm(n.test) and isinstance(n.body, ast.Subscript):
-            used = norm(n.body.value)
-    if used is None:
-        # alternative forms: bnodeMap[x] / bnodeMap.setdefault(x, BNode())
-        for n in ast.walk(ft):
-            if isinstance(n, ast.Subscript) and isinstance(n.value, ast.Name) and "bnode" in n.value.id.lower():
-                used = n.value.id
-    if used is None:
-        raise AnalysisError("_fillTemplate: bnode renaming map not found")
-    params = [a.arg for a in ft.args.args]
-    # the map is made inside each call: at the top level of the body, or - when it is an optional parameter with which a caller shares one
-    # map between the parts of ONE solution's template - under `if <map> is None:` at the top level (the default must be None, not a map)
-    local_ok = any(nm == used and eu.parent.get(id(st)) is ft for nm, st in maps)
-    shared_param = False
-    if used in params:
-        defaults = dict(zip(reversed(params), reversed(ft.args.defaults)))
-        d = defaults.get(used)
-        none_default = isinstance(d, ast.Constant) and d.value is None
-        made_if_none = any(nm == used and isinstance(eu.parent.get(id(st)), ast.If) and norm(eu.parent[id(st)].test) == "%s is None" % used
-                           and eu.parent.get(id(eu.parent[id(st)])) is ft for nm, st in maps)
-        shared_param = none_default and made_if_none
-        local_ok = shared_param
-    rep.ob("C10.c-bnodes-fresh-per-solution", eu, "_fillTemplate", "bnode map %s" % used, local_ok,
-           ("created in the call unless the caller passes the map of the solution it is filling" if shared_param else "created at the top level of the call: fresh blank nodes for each solution") if local_ok else
-           "bnode map %s is not created inside each call: blank nodes would be shared between solutions" % used, node=ft)
-    map_pos = params.index(used) if used in params else None
-    for q, f in evaluators.items():
-        for c in [n for n in own_nodes(f) if isinstance(n, ast.Call) and norm(n.func) == "_fillTemplate"]:
-            loopvar, loop = None, None
-            for p in up.parents(c):
-                if isinstance(p, ast.For):
-                    # the innermost loop over solutions: skip loops over the request's quads dict
-                    if _lazy_reason(p.iter, f, up, {"u"}) is None and norm(p.iter).startswith("u."):
-                        continue
-                    loopvar, loop = norm(p.target), p
-                    break
-                if p is f:
-                    break
-            arg = norm(c.args[1]) if len(c.args) > 1 else None
-            ctxp = f.args.args[0].arg if f.args.args else None
-            if loopvar is None and arg == ctxp:
-                # ground data (INSERT DATA): no solutions, the template is instantiated once per operation with the context's initial bindings
-                ok, why = True, "ground data: filled once per operation"
-            else:
-                ok = loopvar is not None and arg == loopvar
-                why = "called once per solution %s" % loopvar if ok else "template filled with %s outside/away from the per-solution loop variable %s" % (arg, loopvar)
-            rep.ob("C10.c-bnodes-fresh-per-solution", up, q, c, ok, why, node=c)
-            # a map handed in: it must be made anew for every solution (in the body of that solution's loop), for ground data anew per operation
-            marg = None
-            if map_pos is not None:
-                if len(c.args) > map_pos:
-                    marg = c.args[map_pos]
-                for k in c.keywords:
-                    if k.arg == used:
-                        marg = k.value
-            if marg is not None:
-                made = [a for a in own_nodes(f) if isinstance(a, (ast.Assign, ast.AnnAssign)) and norm(a.targets[0] if isinstance(a, ast.Assign) else a.target) == norm(marg)]
-                scope = loop if loop is not None else f
-                okm = bool(made) and all(up.parent.get(id(a)) is scope for a in made)
-                rep.ob("C10.c-bnodes-fresh-per-solution", up, q, "map %s passed to %s" % (norm(marg), norm(c)[:50]), okm,
-                       "made anew for each %s" % ("solution" if loop is not None else "operation") if okm else
-                       "the blank node map %s handed to _fillTemplate is not made anew in the body of the loop over solutions: one solution's blank nodes are reused for the next" % norm(marg), node=c)
 
-    rep.rule("C10.d-unbound-skipped",
-             "_fillTemplate yields a triple only under `is not None` tests of all three instantiated components "
-             "(identity, not truthiness: a falsy literal is a legal term)", floor=1)
-    yields = [y for y in own_nodes(ft) if isinstance(y, ast.Yield)]
-    if not yields:
-        raise AnalysisError("_fillTemplate has no yield")
-    for y in yields:
-        comps = [norm(e) for e in y.value.elts] if isinstance(y.value, ast.Tuple) else []
-        guarded = set()
-        for p in eu.parents(y):
-            if isinstance(p, ast.If):
-                for c in ast.walk(p.test):
-                    if isinstance(c, ast.Compare) and isinstance(c.ops[0], ast.IsNot) and isinstance(c.comparators[0], ast.Constant) \
-                            and c.comparators[0].value is None:
-                        guarded.add(norm(c.left))
-                if isinstance(p.test, ast.BoolOp) and isinstance(p.test.op, ast.Or):
-                    guarded = set()
-            if p is ft:
-                break
-        # ... or earlier in the same block: `if a is None or b is None ...: continue`
-        ys = y
-        while eu.parent.get(id(ys)) is not None and not isinstance(eu.parent[id(ys)], (ast.For, ast.While, ast.FunctionDef)):
-            ys = eu.parent[id(ys)]
-        blk = getattr(eu.parent.get(id(ys)), "body", [])
-        for st in blk[:blk.index(ys)] if ys in blk else []:
-            if isinstance(st, ast.If) and not st.orelse and isinstance(st.body[-1], (ast.Continue, ast.Return, ast.Raise)):
-                leaves = st.test.values if isinstance(st.test, ast.BoolOp) and isinstance(st.test.op, ast.Or) else [st.test]
-                for c in leaves:
-                    if isinstance(c, ast.Compare) and len(c.ops) == 1 and isinstance(c.ops[0], ast.Is) and isinstance(c.comparators[0], ast.Constant) and c.comparators[0].value is None:
-                        guarded.add(norm(c.left))
-        ok = len(comps) == 3 and set(comps) <= guarded
-        rep.ob("C10.d-unbound-skipped", eu, "_fillTemplate", y, ok,
-               "all of %s tested `is not None`" % comps if ok else "component(s) %s emitted without an `is not None` test" % sorted(set(comps) - guarded), node=y)
-    truthy.scan(repo, rep, "C10.d-unbound-skipped", eu, ft, "_fillTemplate")
+    # ------------------------------------------------------------------ (a)
+    def rule_a() -> None:
+        rep.rule("C10.a-materialise-before-mutate",
+                 "a loop in an update evaluator whose body mutates a graph iterates a materialised sequence (list/tuple/"
+                 "sorted/..., a helper returning one - alone or as one item of a returned tuple that is unpacked -, or part of the parsed request), never a live "
+                 "generator over the store: the WHERE pattern is evaluated once, on the state before the operation", floor=8)
+        for q, f in evaluators.items():
+            alg_params = {a.arg for a in f.args.args if a.arg in ("u", "update")}
+            for loop in [n for n in own_nodes(f) if isinstance(n, (ast.For, ast.While))]:
+                if isinstance(loop, ast.While):
+                    continue
+                muts = [n for s in loop.body for n in ast.walk(s) if _is_graph_mutation(repo, up.name, n)]
+                if not muts:
+                    continue
+                why = _lazy_reason(loop.iter, f, up, alg_params)
+                rep.ob("C10.a-materialise-before-mutate", up, q, "for %s in %s" % (norm(loop.target), norm(loop.iter)), why is None,
+                       "iterates a materialised / request-derived sequence while mutating (%s)" % norm(muts[0])[:50] if why is None else
+                       "mutates the store (%s) while iterating a sequence that may still be reading it: %s" % (norm(muts[0])[:50], why), node=loop)
+
+    # ------------------------------------------------------------------ (b)
+    def rule_b() -> None:
+        rep.rule("C10.b-delete-all-before-insert-all",
+                 "in evalModify no control-flow path performs an insertion-template mutation and afterwards a "
+                 "deletion-template mutation; both phases iterate the same materialised solution sequence", floor=3)
+        em = evaluators.get("evalModify")
+        if em is None:
+            raise AnalysisError("evalModify vanished")
+        g = CFG(em)
+        dels, inss = [], []
+        for n in own_nodes(em):
+            k = _is_graph_mutation(repo, up.name, n)
+            if not k:
+                continue
+            txt = norm(n)
+            # template mutations only: those fed by _fillTemplate; ctx.load of USING is a read-side preparation
+            if "_fillTemplate" not in txt:
+                continue
+            (dels if k == "DEL" else inss).append(n)
+        if not dels or not inss:
+            raise AnalysisError("evalModify: template deletions/insertions not found (dels=%d ins=%d)" % (len(dels), len(inss)))
+        for i in inss:
+            inode = g.node_of(i, up)
+            later_del = [d for d in dels if g.node_of(d, up) in g.reach(inode)]
+            rep.ob("C10.b-delete-all-before-insert-all", up, "evalModify", i, not later_del,
+                   "no deletion can follow this insertion" if not later_del else
+                   "a deletion (%s) can execute after this insertion (per-solution delete/insert): a triple inserted for one solution can be deleted for a later one" % norm(later_del[0])[:60], node=i)
+        # same sequence
+        seqs = set()
+        for n in dels + inss:
+            # outermost enclosing for
+            outermost = None
+            for p in up.parents(n):
+                if isinstance(p, ast.For):
+                    outermost = p
+                if p is em:
+                    break
+            if outermost is not None:
+                seqs.add(norm(outermost.iter))
+        rep.ob("C10.b-delete-all-before-insert-all", up, "evalModify", "delete and insert phases iterate %s" % sorted(seqs), len(seqs) == 1,
+               "one shared solution sequence" if len(seqs) == 1 else "phases iterate different sequences %s: WHERE would be evaluated twice" % sorted(seqs), node=em)
+
+    # ------------------------------------------------------------------ (c)
+    def rule_c() -> None:
+        rep.rule("C10.c-bnodes-fresh-per-solution",
+                 "_fillTemplate creates its template-bnode map inside the call (not a module global, default argument or "
+                 "parameter), and every call site in the update evaluators passes the per-solution binding of the "
+                 "innermost solution loop", floor=6)
+        maps = []
+        for n in own_nodes(ft):
+            if isinstance(n, (ast.Assign, ast.AnnAssign)):
+                v = n.value
+                if isinstance(v, ast.Call) and "BNode" in norm(v) and ("dict" in norm(v.func).lower()):
+                    tg = n.targets[0] if isinstance(n, ast.Assign) else n.target
+                    maps.append((norm(tg), n))
+                if isinstance(v, ast.Dict) and not v.keys:
+                    tg = n.targets[0] if isinstance(n, ast.Assign) else n.target
+                    maps.append((norm(tg), n))
+        # which map is used to rename template bnodes? the one subscripted where isinstance(x, BNode)
+        used = None
+        for n in ast.walk(ft):
+            if isinstance(n, ast.IfExp) and "isinstance" in norm(n.test) and "BNode" in norm(n.test) and isinstance(n.body, ast.Subscript):
+                used = norm(n.body.value)
+        if used is None:
+            # alternative forms: bnodeMap[x] / bnodeMap.setdefault(x, BNode())
+            for n in ast.walk(ft):
+                if isinstance(n, ast.Subscript) and isinstance(n.value, ast.Name) and "bnode" in n.value.id.lower():
+                    used = n.value.id
+        if used is None:
+            raise AnalysisError("_fillTemplate: bnode renaming map not found")
+        params = [a.arg for a in ft.args.args]
+        # the map is made inside each call: at the top level of the body, or - when it is an optional parameter with which a caller shares one
+        # map between the parts of ONE solution's template - under `if <map> is None:` at the top level (the default must be None, not a map)
+        local_ok = any(nm == used and eu.parent.get(id(st)) is ft for nm, st in maps)
+        shared_param = False
+        if used in params:
+            defaults = dict(zip(reversed(params), reversed(ft.args.defaults)))
+            d = defaults.get(used)
+            none_default = isinstance(d, ast.Constant) and d.value is None
+            made_if_none = any(nm == used and isinstance(eu.parent.get(id(st)), ast.If) and norm(eu.parent[id(st)].test) == "%s is None" % used
+                               and eu.parent.get(id(eu.parent[id(st)])) is ft for nm, st in maps)
+            shared_param = none_default and made_if_none
+            local_ok = shared_param
+        rep.ob("C10.c-bnodes-fresh-per-solution", eu, "_fillTemplate", "bnode map %s" % used, local_ok,
+               ("created in the call unless the caller passes the map of the solution it is filling" if shared_param else "created at the top level of the call: fresh blank nodes for each solution") if local_ok else
+               "bnode map %s is not created inside each call: blank nodes would be shared between solutions" % used, node=ft)
+        map_pos = params.index(used) if used in params else None
+        for q, f in evaluators.items():
+            for c in [n for n in own_nodes(f) if isinstance(n, ast.Call) and norm(n.func) == "_fillTemplate"]:
+                loopvar, loop = None, None
+                for p in up.parents(c):
+                    if isinstance(p, ast.For):
+                        # the innermost loop over solutions: skip loops over the request's quads dict
+                        if _lazy_reason(p.iter, f, up, {"u"}) is None and norm(p.iter).startswith("u."):
+                            continue
+                        loopvar, loop = norm(p.target), p
+                        break
+                    if p is f:
+                        break
+                arg = norm(c.args[1]) if len(c.args) > 1 else None
+                ctxp = f.args.args[0].arg if f.args.args else None
+                if loopvar is None and arg == ctxp:
+                    # ground data (INSERT DATA): no solutions, the template is instantiated once per operation with the context's initial bindings
+                    ok, why = True, "ground data: filled once per operation"
+                else:
+                    ok = loopvar is not None and arg == loopvar
+                    why = "called once per solution %s" % loopvar if ok else "template filled with %s outside/away from the per-solution loop variable %s" % (arg, loopvar)
+                rep.ob("C10.c-bnodes-fresh-per-solution", up, q, c, ok, why, node=c)
+                # a map handed in: it must be made anew for every solution (in the body of that solution's loop), for ground data anew per operation
+                marg = None
+                if map_pos is not None:
+                    if len(c.args) > map_pos:
+                        marg = c.args[map_pos]
+                    for k in c.keywords:
+                        if k.arg == used:
+                            marg = k.value
+                if marg is not None:
+                    made = [a for a in own_nodes(f) if isinstance(a, (ast.Assign, ast.AnnAssign)) and norm(a.targets[0] if isinstance(a, ast.Assign) else a.target) == norm(marg)]
+                    scope = loop if loop is not None else f
+                    okm = bool(made) and all(up.parent.get(id(a)) is scope for a in made)
+                    rep.ob("C10.c-bnodes-fresh-per-solution", up, q, "map %s passed to %s" % (norm(marg), norm(c)[:50]), okm,
+                           "made anew for each %s" % ("solution" if loop is not None else "operation") if okm else
+                           "the blank node map %s handed to _fillTemplate is not made anew in the body of the loop over solutions: one solution's blank nodes are reused for the next" % norm(marg), node=c)
+
+    # ------------------------------------------------------------------ (d)
+    def rule_d() -> None:
+        rep.rule("C10.d-unbound-skipped",
+                 "_fillTemplate yields a triple only where each of its three instantiated components is known to be not None (identity, not truthiness: a "
+                 "falsy literal is a legal term).  Known = a condition that holds whenever the yield is evaluated: an enclosing test, an early exit before it "
+                 "in an enclosing block, or what a predicate helper of the module that was called on the components says about its arguments where it "
+                 "returns true.  The triple is a display of three expressions, or a name that such a call has shown to have three items", floor=1)
+        yields = [y for y in own_nodes(ft) if isinstance(y, ast.Yield)]
+        if not yields:
+            raise AnalysisError("_fillTemplate has no yield")
+        helpers: set[str] = set()
+        for y in yields:
+            comps = (H.components(eu, ft, y.value, y, 3) if y.value is not None else None) or []
+            facts = H.facts_at(eu, ft, y)
+            guarded = set()
+            for e, truth in facts:
+                if isinstance(e, ast.Compare) and len(e.ops) == 1 and isinstance(e.comparators[0], ast.Constant) and e.comparators[0].value is None:
+                    if (isinstance(e.ops[0], ast.Is) and not truth) or (isinstance(e.ops[0], ast.IsNot) and truth):
+                        guarded.add(norm(e.left))
+            for e, _truth in H.atoms(H.guard_facts(eu, ft, y)):
+                helpers |= {c.func.id for c in ast.walk(e) if isinstance(c, ast.Call) and isinstance(c.func, ast.Name) and isinstance(eu.defs.get(c.func.id), ast.FunctionDef)}
+            ok = len(comps) == 3 and set(comps) <= guarded
+            rep.ob("C10.d-unbound-skipped", eu, "_fillTemplate", y, ok,
+                   "all of %s tested `is not None`" % comps if ok else
+                   ("component(s) %s emitted without an `is not None` test" % sorted(set(comps) - guarded) if comps else
+                    "what is yielded (%s) is not known to be a triple of three components, none of which is None" % norm(y.value)[:40]), node=y)
+        truthy.scan(repo, rep, "C10.d-unbound-skipped", eu, ft, "_fillTemplate")
+        for h in sorted(helpers):  # the predicate helpers the yields rely on decide by identity as well
+            truthy.scan(repo, rep, "C10.d-unbound-skipped", eu, eu.defs[h], h)
 
     # ------------------------------------------------------------------ (e)
-    rep.rule("C10.e-request-order-and-arms",
-             "evalUpdate iterates update.algebra in order in one loop and dispatches every update node name that the "
-             "translator handles to its own evaluator", floor=12)
-    eup = evaluators.get("evalUpdate")
-    if eup is None:
-        raise AnalysisError("evalUpdate vanished")
-    loops_ = [n for n in own_nodes(eup) if isinstance(n, ast.For)]
-    main = [l for l in loops_ if norm(l.iter).endswith(".algebra")]
-    rep.ob("C10.e-request-order-and-arms", up, "evalUpdate", "for u in update.algebra", len(main) == 1,
-           "operations run in request order" if len(main) == 1 else "evalUpdate does not iterate update.algebra directly (order of operations not preserved: %s)" % [norm(l.iter) for l in loops_], node=eup)
-    arms: dict[str, str] = {}
-    for n in ast.walk(eup):
-        if isinstance(n, ast.If) and isinstance(n.test, ast.Compare) and norm(n.test.left).endswith(".name") and isinstance(n.test.ops[0], ast.Eq) \
-                and isinstance(n.test.comparators[0], ast.Constant):
-            calls = [c for s in n.body for c in ast.walk(s) if isinstance(c, ast.Call) and isinstance(c.func, ast.Name) and c.func.id.startswith("eval")]
-            arms[n.test.comparators[0].value] = calls[0].func.id if calls else ""
-    tu = alg.func("translateUpdate1")
-    rep.analysed("rdflib/plugins/sparql/algebra.py:translateUpdate1")
-    names = set()
-    for n in ast.walk(tu):
-        if isinstance(n, ast.Compare) and norm(n.left).endswith(".name"):
-            for c in n.comparators:
-                if isinstance(c, ast.Constant):
-                    names.add(c.value)
-                elif isinstance(c, ast.Tuple):
-                    names |= {e.value for e in c.elts if isinstance(e, ast.Constant)}
-    # the grammar's update operations
-    par = repo.mod("rdflib.plugins.sparql.parser")
-    gram = set()
-    for n in ast.walk(par.tree):
-        if isinstance(n, ast.Call) and isinstance(n.func, ast.Name) and n.func.id == "Comp" and n.args and isinstance(n.args[0], ast.Constant):
-            gram.add(n.args[0].value)
-    names |= {x for x in gram if x in ("Load", "Clear", "Drop", "Create", "Add", "Move", "Copy", "InsertData", "DeleteData", "DeleteWhere", "Modify")}
-    if len(names) < 11:
-        raise AnalysisError("translateUpdate1/parser: expected 11 update operation names, found %s" % sorted(names))
-    for nm in sorted(names):
-        want = "eval" + nm
-        ok = arms.get(nm) == want
-        rep.ob("C10.e-request-order-and-arms", up, "evalUpdate", "arm for %s" % nm, ok,
-               "dispatches to %s" % want if ok else "update operation %s dispatches to %r" % (nm, arms.get(nm)), node=eup)
+    def rule_e() -> None:
+        rep.rule("C10.e-request-order-and-arms",
+                 "evalUpdate iterates update.algebra in order in one loop and dispatches every update node name that the "
+                 "translator handles to its own evaluator", floor=12)
+        eup = evaluators.get("evalUpdate")
+        if eup is None:
+            raise AnalysisError("evalUpdate vanished")
+        loops_ = [n for n in own_nodes(eup) if isinstance(n, ast.For)]
+        main = [l for l in loops_ if norm(l.iter).endswith(".algebra")]
+        rep.ob("C10.e-request-order-and-arms", up, "evalUpdate", "for u in update.algebra", len(main) == 1,
+               "operations run in request order" if len(main) == 1 else "evalUpdate does not iterate update.algebra directly (order of operations not preserved: %s)" % [norm(l.iter) for l in loops_], node=eup)
+        arms: dict[str, str] = {}
+        for n in ast.walk(eup):
+            if isinstance(n, ast.If) and isinstance(n.test, ast.Compare) and norm(n.test.left).endswith(".name") and isinstance(n.test.ops[0], ast.Eq) \
+                    and isinstance(n.test.comparators[0], ast.Constant):
+                calls = [c for s in n.body for c in ast.walk(s) if isinstance(c, ast.Call) and isinstance(c.func, ast.Name) and c.func.id.startswith("eval")]
+                arms[n.test.comparators[0].value] = calls[0].func.id if calls else ""
+        tu = alg.func("translateUpdate1")
+        rep.analysed("rdflib/plugins/sparql/algebra.py:translateUpdate1")
+        names = set()
+        for n in ast.walk(tu):
+            if isinstance(n, ast.Compare) and norm(n.left).endswith(".name"):
+                for c in n.comparators:
+                    if isinstance(c, ast.Constant):
+                        names.add(c.value)
+                    elif isinstance(c, ast.Tuple):
+                        names |= {e.value for e in c.elts if isinstance(e, ast.Constant)}
+        # the grammar's update operations
+        par = repo.mod("rdflib.plugins.sparql.parser")
+        gram = set()
+        for n in ast.walk(par.tree):
+            if isinstance(n, ast.Call) and isinstance(n.func, ast.Name) and n.func.id == "Comp" and n.args and isinstance(n.args[0], ast.Constant):
+                gram.add(n.args[0].value)
+        names |= {x for x in gram if x in ("Load", "Clear", "Drop", "Create", "Add", "Move", "Copy", "InsertData", "DeleteData", "DeleteWhere", "Modify")}
+        if len(names) < 11:
+            raise AnalysisError("translateUpdate1/parser: expected 11 update operation names, found %s" % sorted(names))
+        for nm in sorted(names):
+            want = "eval" + nm
+            ok = arms.get(nm) == want
+            rep.ob("C10.e-request-order-and-arms", up, "evalUpdate", "arm for %s" % nm, ok,
+                   "dispatches to %s" % want if ok else "update operation %s dispatches to %r" % (nm, arms.get(nm)), node=eup)
 
     # ------------------------------------------------------------------ (f)
-    rep.rule("C10.f-graph-management-order",
-             "in evalAdd/evalMove/evalCopy the source==target test returns before any mutation; MOVE/COPY clear the "
-             "target before copying, and MOVE drops the source only after the copy", floor=6)
-    for q in ("evalAdd", "evalMove", "evalCopy"):
-        f = evaluators.get(q)
-        if f is None:
-            raise AnalysisError("%s vanished" % q)
-        g = CFG(f)
-        guards = set()
-        for n in own_nodes(f):
-            if isinstance(n, ast.If) and isinstance(n.test, ast.Compare) and isinstance(n.test.ops[0], ast.Eq) and ".identifier" in norm(n.test) \
-                    and n.body and isinstance(n.body[-1], ast.Return):
-                guards.add(g.by_ast[id(n)])
-        muts = [(n, _is_graph_mutation(repo, up.name, n)) for n in own_nodes(f)]
-        muts = [(n, k) for n, k in muts if k]
-        if not muts:
-            raise AnalysisError("%s: no graph mutation found" % q)
-        for n, k in muts:
-            ok = bool(guards) and g.must_pass_before(g.node_of(n, up), guards)
-            rep.ob("C10.f-graph-management-order", up, q, n, ok,
-                   "dominated by the source==target short-circuit" if ok else "mutation is reachable without passing the source==target test (src == dst would be destroyed)", node=n)
-        if q in ("evalMove", "evalCopy"):
-            # roles: src/dst names from `src, dst = u.graph` then srcg/dstg = _graphOrDefault(ctx, src|dst)
-            role = {}
-            pair = None
+    def rule_f() -> None:
+        rep.rule("C10.f-graph-management-order",
+                 "in evalAdd/evalMove/evalCopy every feasible path to a mutation has evaluated the source==target test (a comparison of the identifiers of the "
+                 "two graphs) and found the graphs different - whether the test returns at once or its outcome is kept (in a local that is None or not) and "
+                 "tested later; MOVE/COPY clear the target before copying, and MOVE drops the source only after the copy.  Which graph a local stands for "
+                 "follows the values: it was obtained by a call that is given the source (target) term of the request, or on a branch chosen by a test of "
+                 "that term alone; through copies and tuples that are packed and unpacked", floor=6)
+        for q in ("evalAdd", "evalMove", "evalCopy"):
+            f = evaluators.get(q)
+            if f is None:
+                raise AnalysisError("%s vanished" % q)
+            g = CFG(f)
+            tests: dict[int, bool] = {}  # CFG node of an `if` that decides on a comparison of the identifiers -> does its true edge mean `same graph`
+
+            def same_graph(t: ast.AST, at: int) -> bool | None:
+                """does the truth of condition t (evaluated at node `at`) mean that the identifiers of the two graphs are equal (True) / differ (False)"""
+                pol = True
+                while isinstance(t, ast.UnaryOp) and isinstance(t.op, ast.Not):
+                    t, pol = t.operand, not pol
+                if isinstance(t, ast.Compare) and len(t.ops) == 1 and isinstance(t.ops[0], (ast.Eq, ast.NotEq)) and ".identifier" in norm(t):
+                    return pol == isinstance(t.ops[0], ast.Eq)
+                if isinstance(t, ast.Name):  # the outcome of the comparison, kept in a local
+                    hv = H.held_values(g, at, t.id)
+                    pols = {same_graph(v, where) for v, where in hv} if hv and not any(isinstance(v, ast.Name) for v, _w in hv) else {None}
+                    if len(pols) == 1 and None not in pols:
+                        return pol == pols.pop()
+                return None
             for n in own_nodes(f):
-                if isinstance(n, ast.Assign) and isinstance(n.targets[0], ast.Tuple) and norm(n.value).endswith(".graph"):
-                    pair = [norm(e) for e in n.targets[0].elts]
-            if not pair or len(pair) != 2:
-                raise AnalysisError("%s: `src, dst = u.graph` not found" % q)
-            for n in own_nodes(f):
-                # a graph obtained for one of the two names through a helper of the module that takes (ctx, name): _graphOrDefault, _sourceGraph ...
-                if isinstance(n, ast.Assign) and isinstance(n.value, ast.Call) and isinstance(n.value.func, ast.Name) and up.has(n.value.func.id) and len(n.value.args) == 2:
-                    a = norm(n.value.args[1])
-                    if a in pair:
-                        role[norm(n.targets[0])] = "src" if a == pair[0] else "dst"
-            clear_dst = [n for n, k in muts if k == "DEL" and isinstance(n, ast.Call) and role.get(norm(n.func.value)) == "dst"]
-            copy = [n for n, k in muts if k == "INS" and isinstance(n, ast.AugAssign) and role.get(norm(n.target)) == "dst" and role.get(norm(n.value)) == "src"]
-            drop_src = [n for n, k in muts if k == "DEL" and isinstance(n, ast.Call) and (role.get(norm(n.func.value)) == "src" or any(role.get(norm(a)) == "src" for a in n.args))]
-            ok = bool(clear_dst) and bool(copy) and all(g.node_of(cp, up) in g.reach(g.node_of(cl, up)) for cl in clear_dst for cp in copy) \
-                and not any(g.node_of(cl, up) in g.reach(g.node_of(cp, up)) for cl in clear_dst for cp in copy)
-            rep.ob("C10.f-graph-management-order", up, q, "clear target, then copy source into it", ok,
-                   "target cleared before the copy" if ok else "target is not cleared strictly before `dst += src` (roles %s)" % role, node=f)
-            if q == "evalMove":
-                ok = bool(drop_src) and not any(g.node_of(cp, up) in g.reach(g.node_of(d, up)) for d in drop_src for cp in copy) \
-                    and all(g.must_pass_after(g.node_of(cp, up), {g.node_of(d, up) for d in drop_src}) for cp in copy)
-                rep.ob("C10.f-graph-management-order", up, q, "source dropped after the copy on every path", ok,
-                       "source removed only after it was copied" if ok else "source graph is not removed after the copy on every path (or is removed before it)", node=f)
+                if isinstance(n, ast.If):
+                    sg = same_graph(n.test, g.by_ast[id(n)])
+                    if sg is not None:
+                        tests[g.by_ast[id(n)]] = sg
+            muts = [(n, _is_graph_mutation(repo, up.name, n)) for n in own_nodes(f)]
+            muts = [(n, k) for n, k in muts if k]
+            if not muts:
+                raise AnalysisError("%s: no graph mutation found" % q)
+            for n, k in muts:
+                seen = H.test_outcomes(g, tests, g.node_of(n, up)) if tests else {"untested"}
+                ok = seen <= {"fails"}
+                rep.ob("C10.f-graph-management-order", up, q, n, ok,
+                       "reached only after the source==target test has found two different graphs" if ok else
+                       "mutation is reachable %s (src == dst would be destroyed)" % (
+                           "without passing the source==target test" if "untested" in seen else "on a path on which the source==target test has found the same graph"), node=n)
+            if q in ("evalMove", "evalCopy"):
+                # the two terms of the request: `src, dst = u.graph`
+                pair = None
+                for n in own_nodes(f):
+                    if isinstance(n, ast.Assign) and isinstance(n.targets[0], ast.Tuple) and norm(n.value).endswith(".graph"):
+                        pair = [norm(e) for e in n.targets[0].elts]
+                if not pair or len(pair) != 2:
+                    raise AnalysisError("%s: `src, dst = u.graph` not found" % q)
+
+                def term_role(names: set[str]) -> str | None:
+                    m = names & set(pair)
+                    return ("src" if m == {pair[0]} else "dst") if len(m) == 1 else None
+
+                def value_role(v: ast.AST, where: int) -> str:
+                    if isinstance(v, ast.Call):  # a graph obtained for one of the two terms: _graphOrDefault(ctx, dst), ctx.dataset.get_context(src) ...
+                        r = term_role({a.id for a in list(v.args) + [k.value for k in v.keywords] if isinstance(a, ast.Name)})
+                        if r:
+                            return r
+                    st = g.nodes[where].ast
+                    for p in up.parents(st) if st is not None else []:  # ... or on a branch that a test of one of the terms has chosen
+                        if p is f:
+                            break
+                        if isinstance(p, ast.If):
+                            r = term_role(H._names(p.test))
+                            if r:
+                                return r
+                    return "?"
+
+                def roles(e: ast.AST, at: ast.AST) -> set[str]:
+                    if not isinstance(e, ast.Name):
+                        return {"?"}
+                    hv = H.held_values(g, g.node_of(at, up), e.id, through_augmented=True)
+                    if not hv:
+                        return {"?"}
+                    return {value_role(v, where) for v, where in hv}
+                clear_dst = [n for n, k in muts if k == "DEL" and isinstance(n, ast.Call) and roles(n.func.value, n) == {"dst"}]
+                copy = [n for n, k in muts if k == "INS" and isinstance(n, ast.AugAssign) and roles(n.target, n) == {"dst"} and roles(n.value, n) == {"src"}]
+                drop_src = [n for n, k in muts if k == "DEL" and isinstance(n, ast.Call) and (roles(n.func.value, n) == {"src"} or any(roles(a, n) == {"src"} for a in n.args))]
+                rolemap = {norm(x): "/".join(sorted(roles(x, n))) for n, _k in muts for x in ([n.target, n.value] if isinstance(n, ast.AugAssign) else [n.func.value] + list(n.args)) if isinstance(x, ast.Name)}
+                ok = bool(clear_dst) and bool(copy) and all(g.node_of(cp, up) in g.reach(g.node_of(cl, up)) for cl in clear_dst for cp in copy) \
+                    and not any(g.node_of(cl, up) in g.reach(g.node_of(cp, up)) for cl in clear_dst for cp in copy)
+                rep.ob("C10.f-graph-management-order", up, q, "clear target, then copy source into it", ok,
+                       "target cleared before the copy" if ok else "target is not cleared strictly before `dst += src` (roles %s)" % rolemap, node=f)
+                if q == "evalMove":
+                    ok = bool(drop_src) and not any(g.node_of(cp, up) in g.reach(g.node_of(d, up)) for d in drop_src for cp in copy) \
+                        and all(g.must_pass_after(g.node_of(cp, up), {g.node_of(d, up) for d in drop_src}) for cp in copy)
+                    rep.ob("C10.f-graph-management-order", up, q, "source dropped after the copy on every path", ok,
+                           "source removed only after it was copied" if ok else "source graph is not removed after the copy on every path (or is removed before it)", node=f)
 
     # ------------------------------------------------------------------ (g)
-    rep.rule("C10.g-quad-blocks-accumulate",
-             "translateQuads accumulates the triples of every GRAPH block under its graph term (+= / extend / append on "
-             "the per-graph list); it never overwrites an earlier block for the same term", floor=1)
-    tq = alg.func("translateQuads")
-    rep.analysed("rdflib/plugins/sparql/algebra.py:translateQuads")
-    ret = [n for n in own_nodes(tq) if isinstance(n, ast.Return)]
-    dname = None
-    if ret and isinstance(ret[-1].value, ast.Tuple) and len(ret[-1].value.elts) == 2:
-        dname = norm(ret[-1].value.elts[1])
-    if dname is None:
-        raise AnalysisError("translateQuads: returned per-graph map not found")
-    nacc = 0
-    for n in own_nodes(tq):
-        if isinstance(n, ast.AugAssign) and isinstance(n.target, ast.Subscript) and norm(n.target.value) == dname:
-            nacc += 1
-            rep.ob("C10.g-quad-blocks-accumulate", alg, "translateQuads", n, isinstance(n.op, ast.Add), "accumulates", node=n)
-        elif isinstance(n, ast.Call) and isinstance(n.func, ast.Attribute) and n.func.attr in ("extend", "append") and isinstance(n.func.value, ast.Subscript) \
-                and norm(n.func.value.value) == dname:
-            nacc += 1
-            rep.ob("C10.g-quad-blocks-accumulate", alg, "translateQuads", n, True, "accumulates", node=n)
-        elif isinstance(n, ast.Assign) and any(isinstance(t, ast.Subscript) and norm(t.value) == dname for t in n.targets):
-            nacc += 1
-            rep.ob("C10.g-quad-blocks-accumulate", alg, "translateQuads", n, False,
-                   "overwrites the entry for a graph term: an earlier GRAPH block naming the same graph is lost", node=n)
-        elif isinstance(n, ast.Call) and isinstance(n.func, ast.Attribute) and n.func.attr in ("update", "setdefault", "__setitem__") and norm(n.func.value) == dname:
-            nacc += 1
-            ok = n.func.attr == "setdefault"
-            rep.ob("C10.g-quad-blocks-accumulate", alg, "translateQuads", n, ok,
-                   "setdefault keeps earlier entries" if ok else "%s() replaces the entry for a graph term: an earlier GRAPH block naming the same graph is lost" % n.func.attr, node=n)
-    if nacc == 0:
-        rep.ob("C10.g-quad-blocks-accumulate", alg, "translateQuads", "writes to %s" % dname, False, "no write to the per-graph map found", node=tq)
+    def rule_g() -> None:
+        rep.rule("C10.g-quad-blocks-accumulate",
+                 "translateQuads accumulates the triples of every GRAPH block under its graph term (+= / extend / append on "
+                 "the per-graph list); it never overwrites an earlier block for the same term", floor=1)
+        tq = alg.func("translateQuads")
+        rep.analysed("rdflib/plugins/sparql/algebra.py:translateQuads")
+        ret = [n for n in own_nodes(tq) if isinstance(n, ast.Return)]
+        dname = None
+        if ret and isinstance(ret[-1].value, ast.Tuple) and len(ret[-1].value.elts) == 2:
+            dname = norm(ret[-1].value.elts[1])
+        if dname is None:
+            raise AnalysisError("translateQuads: returned per-graph map not found")
+        nacc = 0
+        for n in own_nodes(tq):
+            if isinstance(n, ast.AugAssign) and isinstance(n.target, ast.Subscript) and norm(n.target.value) == dname:
+                nacc += 1
+                rep.ob("C10.g-quad-blocks-accumulate", alg, "translateQuads", n, isinstance(n.op, ast.Add), "accumulates", node=n)
+            elif isinstance(n, ast.Call) and isinstance(n.func, ast.Attribute) and n.func.attr in ("extend", "append") and isinstance(n.func.value, ast.Subscript) \
+                    and norm(n.func.value.value) == dname:
+                nacc += 1
+                rep.ob("C10.g-quad-blocks-accumulate", alg, "translateQuads", n, True, "accumulates", node=n)
+            elif isinstance(n, ast.Assign) and any(isinstance(t, ast.Subscript) and norm(t.value) == dname for t in n.targets):
+                nacc += 1
+                rep.ob("C10.g-quad-blocks-accumulate", alg, "translateQuads", n, False,
+                       "overwrites the entry for a graph term: an earlier GRAPH block naming the same graph is lost", node=n)
+            elif isinstance(n, ast.Call) and isinstance(n.func, ast.Attribute) and n.func.attr in ("update", "setdefault", "__setitem__") and norm(n.func.value) == dname:
+                nacc += 1
+                ok = n.func.attr == "setdefault"
+                rep.ob("C10.g-quad-blocks-accumulate", alg, "translateQuads", n, ok,
+                       "setdefault keeps earlier entries" if ok else "%s() replaces the entry for a graph term: an earlier GRAPH block naming the same graph is lost" % n.func.attr, node=n)
+        if nacc == 0:
+            rep.ob("C10.g-quad-blocks-accumulate", alg, "translateQuads", "writes to %s" % dname, False, "no write to the per-graph map found", node=tq)
 
     # ------------------------------------------------------------------ (h)
-    from checks.c15 import translation_cache_rule
+    def rule_h() -> None:
+        from checks.c15 import translation_cache_rule
 
-    translation_cache_rule(repo, rep, "C10.h-update-translation-not-cached", ("translateUpdate",))
-    real_default_graph_rule(repo, rep)
-    active_graph_rule(repo, rep)
+        translation_cache_rule(repo, rep, "C10.h-update-translation-not-cached", ("translateUpdate",))
+
+    for sec in (rule_a, rule_b, rule_c, rule_d, rule_e, rule_f, rule_g, rule_h):
+        _section(rep, repo, sec)
+    _section(rep, repo, lambda: real_default_graph_rule(repo, rep))
+    _section(rep, repo, lambda: active_graph_rule(repo, rep))
 
 
 def real_default_graph_rule(repo: Repo, rep: Report) -> None:
@@ -503,21 +582,25 @@ def real_default_graph_rule(repo: Repo, rep: Report) -> None:
 
 
 def active_graph_rule(repo: Repo, rep: Report) -> None:
-    """(j) WITH / USING select the active graph of WHERE and of the templates (path-sensitive reaching definitions of `ctx`)"""
+    """(j) WITH / USING select the active graph of WHERE and of the templates (path-sensitive reaching definitions of the query context)"""
+    from vlib import h_c10 as H
     from vlib.cfg import reaching_defs
 
     up = repo.mod("rdflib.plugins.sparql.update")
+    rep.rule("C10.j-with-using-select-active-graph",
+             "in evalModify, for each of the four presence combinations of USING and WITH, the query context that is current (the value of the local that holds "
+             "it - whatever that local is called -, followed on every feasible path through copies and tuples that are packed and unpacked; branch feasibility "
+             "from the fixed truth of u.using/u.withClause and the exactly tracked one-bit local flags) is: at the "
+             "WHERE evaluation - the WITH graph pushed on the caller's context iff WITH and no USING, never the WITH graph when USING is present, the caller's context otherwise "
+             "(or the USING scratch default graph); at every statement that selects the graph the templates are applied to (reads the active graph of a context: "
+             "the value the template target holds is followed back to that read) - the WITH graph pushed iff WITH "
+             "is present, and otherwise the caller's own context (never the USING scratch dataset)", floor=8)
     em = up.func("evalModify")
     if em is None:
         raise AnalysisError("evalModify vanished")
-    rep.rule("C10.j-with-using-select-active-graph",
-             "in evalModify, for each of the four presence combinations of USING and WITH, the query context that is current (last binding of `ctx` on "
-             "every feasible path; branch feasibility from the fixed truth of u.using/u.withClause and the exactly tracked one-bit local flags) is: at the "
-             "WHERE evaluation - the WITH graph pushed iff WITH and no USING, never the WITH graph when USING is present, the caller's context otherwise "
-             "(or the USING scratch default graph); at every statement that selects the graph the templates are applied to - the WITH graph pushed iff WITH "
-             "is present, and otherwise the caller's own context (never the USING scratch dataset)", floor=8)
+    T = repo.typed
     g = CFG(em)
-    ctxname = em.args.args[0].arg
+    p0 = em.args.args[0].arg
     uname = em.args.args[1].arg
     # the atoms must be invariant: u and its attributes are never re-bound in the function
     for n in own_nodes(em):
@@ -526,38 +609,41 @@ def active_graph_rule(repo: Repo, rep: Report) -> None:
         if isinstance(n, ast.Attribute) and isinstance(n.ctx, ast.Store) and norm(n.value) == uname:
             raise AnalysisError("evalModify assigns an attribute of its update node")
     A_USING, A_WITH = "%s.using" % uname, "%s.withClause" % uname
+    KNOWN = ("CALLER", "WITH", "SCRATCH")
 
-    def classify(nid: int, assume: dict, depth: int = 0) -> str:
-        """class of one binding of ctx"""
+    def classes(name: str, at: int, assume: dict, depth: int = 0) -> set[str]:
+        """classes of the values the local `name` can hold when node `at` is reached"""
+        return {classify(d, name, assume, depth) for d in reaching_defs(g, at, name, assume)}
+
+    def classify(nid: int, name: str, assume: dict, depth: int = 0) -> str:
+        """class of one binding of a local that holds a query context"""
         if nid == g.entry:
-            return "CALLER"
+            return "CALLER" if name == p0 else "OTHER(%s at entry)" % name
         st = g.nodes[nid].ast
-        if not isinstance(st, ast.Assign):
+        v = H.bound_value(st, name) if st is not None else None
+        if v is None or depth > 4:
             return "OTHER(%s)" % norm(st)[:40]
-        v = st.value
-        if isinstance(v, ast.Name) and depth < 3:
-            # ctx = originalctx: class of the value that name holds
-            cls = set()
-            for d in reaching_defs(g, nid, v.id, assume):
-                ds = g.nodes[d].ast
-                if d != g.entry and isinstance(ds, ast.Assign) and isinstance(ds.value, ast.Name) and ds.value.id == ctxname:
-                    cls |= {classify(x, assume, depth + 1) for x in reaching_defs(g, d, ctxname, assume)}
-                else:
-                    cls.add("OTHER(%s)" % (norm(ds)[:40] if ds is not None else "entry"))
+        if isinstance(v, ast.Name):
+            # a copy: the class of the value that name holds here
+            cls = classes(v.id, nid, assume, depth + 1)
             return cls.pop() if len(cls) == 1 else "MIXED(%s)" % ",".join(sorted(cls))
-        if isinstance(v, ast.Call) and isinstance(v.func, ast.Attribute) and v.func.attr == "pushGraph" and norm(v.func.value) == ctxname and v.args:
+        if isinstance(v, ast.Call) and isinstance(v.func, ast.Attribute) and v.func.attr == "pushGraph" and isinstance(v.func.value, ast.Name) and v.args:
+            # a graph pushed on a context: it must be the caller's (its dataset is the one the templates write to)
+            base = classes(v.func.value.id, nid, assume, depth + 1)
             a = v.args[0]
             srcs = set()
             if isinstance(a, ast.Name):
                 for d in reaching_defs(g, nid, a.id, assume):
                     ds = g.nodes[d].ast
-                    val = getattr(ds, "value", None)
-                    if isinstance(ds, (ast.Assign, ast.AnnAssign)) and val is not None:
+                    val = H.bound_value(ds, a.id) if ds is not None else None
+                    if val is not None:
                         srcs.add(norm(val))
                     else:
                         srcs.add("?" + (norm(ds)[:30] if ds is not None else "entry"))
             else:
                 srcs.add(norm(a))
+            if base != {"CALLER"}:
+                return "PUSH(on %s)" % "/".join(sorted(base))[:50]
             if srcs and all("get_context(%s)" % A_WITH in s for s in srcs):
                 return "WITH"
             if srcs and all(s in ("Graph()",) for s in srcs):
@@ -568,45 +654,110 @@ def active_graph_rule(repo: Repo, rep: Report) -> None:
             return "SCRATCH"
         return "OTHER(%s)" % norm(st)[:40]
 
+    def holds_context(x: ast.Name, at: int) -> bool:
+        """is the local x, read at node `at`, a query context: by its static type, by being the context parameter, or by what it was bound to"""
+        if x.id == p0:
+            return True
+        tf = T.type_of(up.name, x)
+        if tf is not None and tf.items:
+            return any(it.endswith(".QueryContext") for it in tf.items)
+        return any(c.startswith(KNOWN) or c.startswith("PUSH") for c in classes(x.id, at, {}))
+
     # sites
     where_sites = [n for n in own_nodes(em) if isinstance(n, ast.Call) and norm(n.func) == "evalPart" and len(n.args) == 2 and norm(n.args[1]) == "%s.where" % uname]
     if len(where_sites) != 1:
         raise AnalysisError("evalModify: expected exactly one evalPart(ctx, u.where) call, found %d" % len(where_sites))
-    tmpl_sites = []  # statements that read ctx to pick the graph a template is applied to
+    if not isinstance(where_sites[0].args[0], ast.Name):
+        raise AnalysisError("evalModify: the context handed to evalPart is not a local: %s" % norm(where_sites[0].args[0])[:60])
     # helpers of the module that hand out the active graph of the context they are given (`_defaultGraph(ctx)` reads ctx.graph)
     graph_selectors = set()
     for q in up.defs:
         hf = up.func(q) if up.has(q) else None
         if isinstance(hf, ast.FunctionDef) and hf.args.args:
-            p0 = hf.args.args[0].arg
-            if any(isinstance(x, ast.Attribute) and x.attr == "graph" and norm(x.value) == p0 for x in own_nodes(hf)) and any(isinstance(x, ast.Return) for x in own_nodes(hf)):
+            hp0 = hf.args.args[0].arg
+            if any(isinstance(x, ast.Attribute) and x.attr == "graph" and norm(x.value) == hp0 for x in own_nodes(hf)) and any(isinstance(x, ast.Return) for x in own_nodes(hf)):
                 graph_selectors.add(q)
 
-    def reads_active_graph(x: ast.AST) -> bool:
-        if isinstance(x, ast.Attribute) and x.attr == "graph" and norm(x.value) == ctxname:
-            return True
-        return isinstance(x, ast.Call) and norm(x.func) in graph_selectors and bool(x.args) and norm(x.args[0]) == ctxname
+    def active_graph_read(x: ast.AST, at: int) -> str | None:
+        """the local whose active graph the expression x reads: `C.graph`, `selector(C)`, C a local that holds a context"""
+        c = None
+        if isinstance(x, ast.Attribute) and x.attr == "graph" and isinstance(x.value, ast.Name):
+            c = x.value
+        elif isinstance(x, ast.Call) and norm(x.func) in graph_selectors and x.args and isinstance(x.args[0], ast.Name):
+            c = x.args[0]
+        return c.id if c is not None and holds_context(c, at) else None
+
+    def head_exprs(st: ast.AST) -> list[ast.AST]:
+        """the expressions a binding statement evaluates (not the statements nested in it)"""
+        if isinstance(st, (ast.Assign, ast.AnnAssign, ast.AugAssign)):
+            return [st.value] if st.value is not None else []
+        if isinstance(st, (ast.For, ast.AsyncFor)):
+            return [st.iter]
+        if isinstance(st, (ast.With, ast.AsyncWith)):
+            return [it.context_expr for it in st.items]
+        return []
+
+    tmpl_sites: list[tuple[ast.AST, str]] = []  # (statement that reads the active graph of a context to pick the graph a template is applied to, that context's local)
+
+    def add_site(st: ast.AST, var: str) -> None:
+        if not any(s is st and v == var for s, v in tmpl_sites):
+            tmpl_sites.append((st, var))
+
+    def roots(e: ast.AST) -> list[ast.Name]:
+        """the locals whose object the value of e is taken from: e itself, or what e reads an attribute / an item of / calls a method of"""
+        if isinstance(e, ast.Name):
+            return [e]
+        if isinstance(e, (ast.Attribute, ast.Subscript, ast.Starred)):
+            return roots(e.value)
+        if isinstance(e, ast.Call) and isinstance(e.func, ast.Attribute):
+            return roots(e.func.value)
+        if isinstance(e, ast.IfExp):
+            return roots(e.body) + roots(e.orelse)
+        return []
+
+    def trace(name: str, at: int, seen: set, depth: int = 0) -> None:
+        """follow the object that local `name` holds at node `at` back to the statements that read it from the active graph of a context"""
+        for d in reaching_defs(g, at, name, {}):
+            if d == g.entry or (d, name) in seen:
+                continue
+            seen.add((d, name))
+            ds = g.nodes[d].ast
+            if ds is None:
+                continue
+            if isinstance(ds, ast.AugAssign):  # `x -= ..` leaves in x the graph it held
+                trace(name, d, seen, depth)
+                continue
+            v = H.bound_value(ds, name)
+            heads = [v] if v is not None else head_exprs(ds)
+            reads = [r for h in heads for x in ast.walk(h) for r in [active_graph_read(x, d)] if r]
+            if reads:
+                # only the ACTIVE graph (ctx.graph) depends on which context is current; ctx.dataset is shared by all pushed contexts
+                for r in reads:
+                    add_site(ds, r)
+            elif depth < 6:
+                for h in heads:
+                    for x in roots(h):
+                        trace(x.id, d, seen, depth + 1)
     for n in own_nodes(em):
         if isinstance(n, ast.AugAssign) and any(isinstance(c, ast.Call) and norm(c.func) == "_fillTemplate" for c in ast.walk(n.value)):
             t = n.target
+            nn = g.node_of(n, up)
             if isinstance(t, ast.Name):
-                for d in reaching_defs(g, g.node_of(n, up), t.id, {}):
-                    ds = g.nodes[d].ast
-                    # only the ACTIVE graph (ctx.graph) depends on which context is current; ctx.dataset is shared by all pushed contexts
-                    if ds is not None and any(reads_active_graph(x) for x in ast.walk(ds)) and ds not in tmpl_sites:
-                        tmpl_sites.append(ds)
-            elif any(reads_active_graph(x) for x in ast.walk(t)):
-                if n not in tmpl_sites:
-                    tmpl_sites.append(n)
+                trace(t.id, nn, set())
+            else:
+                for x in ast.walk(t):
+                    r = active_graph_read(x, nn)
+                    if r:
+                        add_site(n, r)
     if len(tmpl_sites) < 1:
         raise AnalysisError("evalModify: found no statement selecting the template target from ctx.graph")
-    rep.info["C10.j_sites"] = {"where": norm(where_sites[0]), "template_targets": [norm(s)[:90] for s in tmpl_sites]}
+    rep.info["C10.j_sites"] = {"where": norm(where_sites[0]), "template_targets": [norm(s)[:90] for s, _v in tmpl_sites]}
     for using in (False, True):
         for withc in (False, True):
             assume = {A_USING: using, A_WITH: withc}
             tag = "USING %s, WITH %s" % ("present" if using else "absent", "present" if withc else "absent")
             wn = g.node_of(where_sites[0], up)
-            cls = sorted({classify(d, assume) for d in reaching_defs(g, wn, ctxname, assume)})
+            cls = sorted(classes(where_sites[0].args[0].id, wn, assume))
             if using:
                 allowed = {"CALLER", "SCRATCH"}
             elif withc:
@@ -616,9 +767,9 @@ def active_graph_rule(repo: Repo, rep: Report) -> None:
             ok = bool(cls) and set(cls) <= allowed
             rep.ob("C10.j-with-using-select-active-graph", up, "evalModify", "[%s] WHERE evaluated in %s" % (tag, "/".join(cls) or "unreachable"), ok,
                    "as the Update semantics prescribe" if ok else "the context WHERE is evaluated in can be %s; allowed here: %s" % ("/".join(cls), "/".join(sorted(allowed))), node=where_sites[0])
-            for s in tmpl_sites:
+            for s, var in tmpl_sites:
                 sn = g.node_of(s, up)
-                cls = sorted({classify(d, assume) for d in reaching_defs(g, sn, ctxname, assume)})
+                cls = sorted(classes(var, sn, assume))
                 allowed = {"WITH"} if withc else {"CALLER"}
                 ok = bool(cls) and set(cls) <= allowed
                 rep.ob("C10.j-with-using-select-active-graph", up, "evalModify", "[%s] template target `%s` chosen in %s" % (tag, norm(s)[:50], "/".join(cls) or "unreachable"), ok,
@@ -627,71 +778,78 @@ def active_graph_rule(repo: Repo, rep: Report) -> None:
                            tag, "/".join(cls), "the WITH graph" if withc else "the caller's dataset (real default graph)"), node=s)
 
 
+from vlib.core import layer as _layer  # noqa: E402
+
 _run_base = run
 
 
 def run(repo: Repo, rep: Report) -> None:  # noqa: F811
-    _run_base(repo, rep)
+    _layer(rep, _run_base, repo)
     up = repo.mod("rdflib.plugins.sparql.update")
     alg = repo.mod("rdflib.plugins.sparql.algebra")
     # ------------------------------------------------------------------ (k)
-    rep.rule("C10.k-solution-multiset-kept",
-             "the update evaluators materialise the WHERE solutions with list(...) / tuple(...) of the solution stream itself: the templates are instantiated once per SOLUTION "
-             "(blank nodes in an INSERT template are fresh per solution, so two identical solutions insert two blank nodes). set(), frozenset(), dict.fromkeys(), a set/dict "
-             "comprehension or sorted(set(...)) over the stream collapse equal solutions", floor=2)
-    for q in ("evalModify", "evalDeleteWhere"):
-        f = up.func(q)
-        streams = {norm(a.targets[0]) for a in own_nodes(f) if isinstance(a, ast.Assign) and isinstance(a.value, ast.Call) and norm(a.value.func) in ("evalPart", "evalBGP", "_join")}
-        for c in own_nodes(f):
-            if not isinstance(c, ast.Call) or not c.args:
-                continue
-            fn = norm(c.func)
-            over = norm(c.args[0])
-            if fn in ("list", "tuple") and over in streams:
-                rep.ob("C10.k-solution-multiset-kept", up, q, c, True, "multiplicity-preserving", node=c)
-            elif over in streams and fn in ("set", "frozenset", "dict.fromkeys", "OrderedDict.fromkeys", "sorted") or (
-                    fn in ("list", "tuple", "sorted") and isinstance(c.args[0], ast.Call) and norm(c.args[0].func) in ("set", "frozenset", "dict.fromkeys", "OrderedDict.fromkeys") and c.args[0].args and norm(c.args[0].args[0]) in streams):
-                if fn == "sorted" and over in streams:
-                    continue  # sorted(stream) keeps multiplicity
-                rep.ob("C10.k-solution-multiset-kept", up, q, c, False,
-                       "%s collapses equal solutions: a template with a blank node is instantiated once where the solution multiset has it twice (UNION branches, a sub-SELECT that projects the distinguishing variable away)" % norm(c)[:60], node=c)
+    def rule_k() -> None:
+        rep.rule("C10.k-solution-multiset-kept",
+                 "the update evaluators materialise the WHERE solutions with list(...) / tuple(...) of the solution stream itself: the templates are instantiated once per SOLUTION "
+                 "(blank nodes in an INSERT template are fresh per solution, so two identical solutions insert two blank nodes). set(), frozenset(), dict.fromkeys(), a set/dict "
+                 "comprehension or sorted(set(...)) over the stream collapse equal solutions", floor=2)
+        for q in ("evalModify", "evalDeleteWhere"):
+            f = up.func(q)
+            streams = {norm(a.targets[0]) for a in own_nodes(f) if isinstance(a, ast.Assign) and isinstance(a.value, ast.Call) and norm(a.value.func) in ("evalPart", "evalBGP", "_join")}
+            for c in own_nodes(f):
+                if not isinstance(c, ast.Call) or not c.args:
+                    continue
+                fn = norm(c.func)
+                over = norm(c.args[0])
+                if fn in ("list", "tuple") and over in streams:
+                    rep.ob("C10.k-solution-multiset-kept", up, q, c, True, "multiplicity-preserving", node=c)
+                elif over in streams and fn in ("set", "frozenset", "dict.fromkeys", "OrderedDict.fromkeys", "sorted") or (
+                        fn in ("list", "tuple", "sorted") and isinstance(c.args[0], ast.Call) and norm(c.args[0].func) in ("set", "frozenset", "dict.fromkeys", "OrderedDict.fromkeys") and c.args[0].args and norm(c.args[0].args[0]) in streams):
+                    if fn == "sorted" and over in streams:
+                        continue  # sorted(stream) keeps multiplicity
+                    rep.ob("C10.k-solution-multiset-kept", up, q, c, False,
+                           "%s collapses equal solutions: a template with a blank node is instantiated once where the solution multiset has it twice (UNION branches, a sub-SELECT that projects the distinguishing variable away)" % norm(c)[:60], node=c)
 
     # ------------------------------------------------------------------ (l)
-    rep.rule("C10.l-each-operation-under-its-own-prologue",
-             "translateUpdate folds the prologue that precedes operation i (PREFIX / BASE written between the operations of one request) and translates operation i in the same "
-             "iteration of one loop over the (prologue, operation) pairs: an operation is resolved against the declarations in force at its position, a later re-declaration of a "
-             "prefix must not rewrite the IRIs of earlier operations", floor=1)
-    tu = alg.func("translateUpdate")
-    tp = [c for c in own_nodes(tu) if isinstance(c, ast.Call) and norm(c.func) == "translatePrologue"]
+    def rule_l() -> None:
+        rep.rule("C10.l-each-operation-under-its-own-prologue",
+                 "translateUpdate folds the prologue that precedes operation i (PREFIX / BASE written between the operations of one request) and translates operation i in the same "
+                 "iteration of one loop over the (prologue, operation) pairs: an operation is resolved against the declarations in force at its position, a later re-declaration of a "
+                 "prefix must not rewrite the IRIs of earlier operations", floor=1)
+        tu = alg.func("translateUpdate")
+        tp = [c for c in own_nodes(tu) if isinstance(c, ast.Call) and norm(c.func) == "translatePrologue"]
 
-    def _in_returning_branch(c):
-        # a call made in a branch that returns at once (the request without operations: only its prologue is folded) translates no operation afterwards
-        for p_ in alg.parents(c):
-            if isinstance(p_, ast.Return):
-                return True
-            if isinstance(p_, ast.If) and any(c is x for s_ in p_.body for x in ast.walk(s_)) and isinstance(p_.body[-1], ast.Return):
-                return True
-            if p_ is tu:
-                return False
-        return False
-    tp = [c for c in tp if not _in_returning_branch(c)]
-    t1 = [c for c in own_nodes(tu) if isinstance(c, ast.Call) and norm(c.func) in ("translateUpdate1", "translatePName") or (isinstance(c, ast.Call) and any("translatePName" in norm(a) for a in c.args) and norm(c.func) == "functools.partial")]
-    if not tp or not t1:
-        raise AnalysisError("translateUpdate: prologue folding / operation translation calls not found")
+        def _in_returning_branch(c):
+            # a call made in a branch that returns at once (the request without operations: only its prologue is folded) translates no operation afterwards
+            for p_ in alg.parents(c):
+                if isinstance(p_, ast.Return):
+                    return True
+                if isinstance(p_, ast.If) and any(c is x for s_ in p_.body for x in ast.walk(s_)) and isinstance(p_.body[-1], ast.Return):
+                    return True
+                if p_ is tu:
+                    return False
+            return False
+        tp = [c for c in tp if not _in_returning_branch(c)]
+        t1 = [c for c in own_nodes(tu) if isinstance(c, ast.Call) and norm(c.func) in ("translateUpdate1", "translatePName") or (isinstance(c, ast.Call) and any("translatePName" in norm(a) for a in c.args) and norm(c.func) == "functools.partial")]
+        if not tp or not t1:
+            raise AnalysisError("translateUpdate: prologue folding / operation translation calls not found")
 
-    def loop_of(n):
-        for p_ in alg.parents(n):
-            if isinstance(p_, (ast.For, ast.While)):
-                return p_
-            if p_ is tu:
-                return None
-        return None
-    lp = {id(loop_of(c)) for c in tp}
-    lo = {id(loop_of(c)) for c in t1}
-    same = lp == lo and None not in {loop_of(c) for c in tp}
-    rep.ob("C10.l-each-operation-under-its-own-prologue", alg, "translateUpdate", "translatePrologue and the translation of the operation share one loop", same,
-           "per-operation prologue" if same else
-           "all prologues are folded before any operation is translated: `PREFIX v: <a> INSERT DATA { v:x ... } ; PREFIX v: <b> INSERT DATA { ... }` resolves the FIRST operation's v:x against <b>", node=tp[0])
+        def loop_of(n):
+            for p_ in alg.parents(n):
+                if isinstance(p_, (ast.For, ast.While)):
+                    return p_
+                if p_ is tu:
+                    return None
+            return None
+        lp = {id(loop_of(c)) for c in tp}
+        lo = {id(loop_of(c)) for c in t1}
+        same = lp == lo and None not in {loop_of(c) for c in tp}
+        rep.ob("C10.l-each-operation-under-its-own-prologue", alg, "translateUpdate", "translatePrologue and the translation of the operation share one loop", same,
+               "per-operation prologue" if same else
+               "all prologues are folded before any operation is translated: `PREFIX v: <a> INSERT DATA { v:x ... } ; PREFIX v: <b> INSERT DATA { ... }` resolves the FIRST operation's v:x against <b>", node=tp[0])
+
+    for sec in (rule_k, rule_l):
+        _section(rep, repo, sec)
 
 
 # ======================================================================================================================
@@ -705,7 +863,7 @@ _TRAVERSERS = ("traverse", "_traverse", "_traverseAgg")
 
 
 def run(repo: Repo, rep: Report) -> None:  # noqa: F811
-    _run_base2(repo, rep)
+    _layer(rep, _run_base2, repo)
     from vlib import h_c10 as H
 
     T = repo.typed
@@ -754,103 +912,8 @@ def run(repo: Repo, rep: Report) -> None:  # noqa: F811
             return any(it.endswith(".QueryContext") for it in tf.items)
         return isinstance(e, ast.Name) and bool(fn.args.args) and e.id == fn.args.args[0].arg and "QueryContext" in norm(fn.args.args[0].annotation or "")
 
-    # ------------------------------------------------------------------ (m)  F110
-    rep.rule("C10.m-graph-kind-by-isinstance",
-             "the SPARQL engine tells a single graph from a dataset (and any other class with subclasses in the package from its siblings) by isinstance, never by "
-             "comparing type(x) / x.__class__ with the class: an instance of a subclass takes the other branch. `type(ctx.graph) is Graph` sends an instance of a "
-             "Graph subclass (class MyGraph(Graph)) down the dataset branch, where DELETE/INSERT ... WHERE raises for a missing dataset instead of updating the graph", floor=2)  # 3 on the pinned tree; one of them is a typing-only assert under TYPE_CHECKING
-    for mod in (up, sp, ev, eu):
-        for q, f in mod.functions():
-            for n in own_nodes(f):
-                if isinstance(n, ast.Call) and isinstance(n.func, ast.Name) and n.func.id == "isinstance" and len(n.args) == 2:
-                    fulls = [cls_full(mod, c) for c in class_list(n.args[1])]
-                    if any(fl and T.is_subclass(fl, "rdflib.graph.Graph") for fl in fulls):
-                        rep.ob("C10.m-graph-kind-by-isinstance", mod, q, n, True, "membership test: instances of subclasses follow their base class", node=n)
-                elif isinstance(n, ast.Compare):
-                    sides = [n.left] + list(n.comparators)
-                    exact = [s for s in sides if (isinstance(s, ast.Call) and isinstance(s.func, ast.Name) and s.func.id == "type" and len(s.args) == 1)
-                             or (isinstance(s, ast.Attribute) and s.attr == "__class__")]
-                    if not exact:
-                        continue
-                    for s in sides:
-                        if s in exact:
-                            continue
-                        for c in class_list(s):
-                            fl = cls_full(mod, c)
-                            if fl and len(T.subclasses(fl)) > 1:
-                                rep.ob("C10.m-graph-kind-by-isinstance", mod, q, n, False,
-                                       "exact-type test against %s, which has subclasses (%s): their instances are treated as not being a %s" % (
-                                           fl, ", ".join(sorted(x.rsplit(".", 1)[-1] for x in T.subclasses(fl) if x != fl)[:4]), fl.rsplit(".", 1)[-1]), node=n)
-
-    # ------------------------------------------------------------------ (n)  F111
-    rep.rule("C10.n-single-graph-targets-need-no-dataset",
-             "QueryContext.dataset raises when the update runs on a plain Graph. In the keyword dispatchers of the graph-management operations (a parameter compared with "
-             "\"DEFAULT\"/\"ALL\"/...) and in the single-target evaluators that call them (CLEAR, DROP), no read of that property is feasible when the context has no dataset and "
-             "the target is DEFAULT or ALL (branch feasibility from the fixed truth of `ctx._dataset is None` and of the keyword comparisons, short-circuit operands included): "
-             "DROP DEFAULT, DROP ALL and CLEAR ALL on a plain Graph empty it as CLEAR DEFAULT does", floor=6)
-    qc = sp.methods("QueryContext").get("dataset")
-    if qc is None or not any(isinstance(r, ast.Raise) and any(isinstance(t, ast.Compare) and norm(t.left).endswith("._dataset") for t, v in H.atoms(H.guard_facts(sp, qc, r)))
-                             for r in own_nodes(qc)):
-        raise AnalysisError("QueryContext.dataset no longer raises under a test of _dataset: rule C10.n has lost its anchor")
-    dispatchers: dict[str, tuple[str, set[str]]] = {}  # function -> (keyword parameter, keywords compared)
-    for q, f in up.functions():
-        if "." in q or len(f.args.args) < 2:
-            continue
-        for a in f.args.args[1:]:
-            kws = {c.comparators[0].value for c in own_nodes(f) if isinstance(c, ast.Compare) and isinstance(c.left, ast.Name) and c.left.id == a.arg and len(c.ops) == 1
-                   and isinstance(c.ops[0], (ast.Eq, ast.NotEq)) and isinstance(c.comparators[0], ast.Constant) and isinstance(c.comparators[0].value, str)}
-            if kws & set(SINGLE_GRAPH_TARGETS):
-                dispatchers[q] = (a.arg, kws)
-    if not dispatchers:
-        raise AnalysisError("update.py: no function dispatches on the DEFAULT/ALL target keywords")
-    scope: dict[str, set[str]] = {q: kws & set(SINGLE_GRAPH_TARGETS) for q, (_, kws) in dispatchers.items()}
-    for q, f in evaluators.items():
-        calls = [c for c in own_nodes(f) if isinstance(c, ast.Call) and isinstance(c.func, ast.Name) and c.func.id in dispatchers]
-        targets = {norm(c.args[1]) for c in calls if len(c.args) > 1}
-        if calls and len(targets) == 1:  # one target graph reference (ADD/MOVE/COPY have two: their source = target case is rule f)
-            scope[q] = set().union(*(scope[c.func.id] for c in calls))
-    changed = True
-    while changed:  # evaluators that delegate the whole operation to one in scope
-        changed = False
-        for q, f in evaluators.items():
-            for c in own_nodes(f):
-                if isinstance(c, ast.Call) and isinstance(c.func, ast.Name) and c.func.id in scope and c.func.id in evaluators and \
-                        [norm(a) for a in c.args] == [a.arg for a in f.args.args] and not scope[c.func.id] <= scope.get(q, set()):
-                    scope[q] = scope.get(q, set()) | scope[c.func.id]
-                    changed = True
-    rep.info["C10.n_scope"] = {q: sorted(k) for q, k in scope.items()}
-    for q in sorted(scope):
-        f = up.func(q)
-        rep.analysed("rdflib/plugins/sparql/update.py:" + q)
-        cp = f.args.args[0].arg
-        reads = [n for n in own_nodes(f) if isinstance(n, ast.Attribute) and n.attr == "dataset" and isinstance(n.ctx, ast.Load) and ctx_typed(up, n.value, f)]
-        for r in reads:
-            bad = []
-            for kw in sorted(scope[q]):
-                env: dict[str, bool | None] = {"%s._dataset is None" % cp: True, "%s._dataset is not None" % cp: False, "%s._dataset" % cp: False}
-                for c in own_nodes(f):
-                    if isinstance(c, ast.Compare) and len(c.ops) == 1 and isinstance(c.left, ast.Name) and q in dispatchers and c.left.id == dispatchers[q][0]:
-                        k = c.comparators[0]
-                        if isinstance(c.ops[0], (ast.Eq, ast.NotEq)) and isinstance(k, ast.Constant) and isinstance(k.value, str):
-                            env[norm(c)] = (k.value == kw) == isinstance(c.ops[0], ast.Eq)
-                        elif isinstance(c.ops[0], (ast.In, ast.NotIn)) and isinstance(k, (ast.Tuple, ast.List, ast.Set)) and all(isinstance(e, ast.Constant) for e in k.elts):
-                            env[norm(c)] = (kw in {e.value for e in k.elts}) == isinstance(c.ops[0], ast.In)
-                if H.feasible(up, f, r, env):
-                    bad.append(kw)
-            rep.ob("C10.n-single-graph-targets-need-no-dataset", up, q, "%s in `%s`" % (norm(r), norm(_stmt_of(up, r, f))[:70]), not bad,
-                   "not reached on a context without a dataset for the targets %s" % sorted(scope[q]) if not bad else
-                   "with the target %s on a plain Graph (ctx._dataset is None) this read of the raising property ctx.dataset is reached: the operation raises "
-                   "'operating currently on a single graph' instead of emptying the graph" % "/".join(bad), node=r)
-
-    # ------------------------------------------------------------------ (o)  F112
-    rep.rule("C10.o-illegal-terms-skipped",
-             "_fillTemplate (the one instantiator of CONSTRUCT / INSERT / DELETE templates) yields a triple only where its subject is known not to be a Literal and its "
-             "predicate is known to be a URIRef (isinstance facts that hold at the yield): `INSERT { ?o ?o ?o } WHERE { <s> <p> ?o }` with ?o bound to \"x\" must skip "
-             "the triple, not store a literal subject and predicate", floor=2)
     ft = eu.func("_fillTemplate")
-    yields = [y for y in own_nodes(ft) if isinstance(y, ast.Yield) and isinstance(y.value, ast.Tuple) and len(y.value.elts) == 3]
-    if not yields:
-        raise AnalysisError("_fillTemplate yields no 3-tuple")
+    tu = alg.func("translateUpdate1")
 
     def sub_of(mod, cs: list[ast.AST], base: str) -> bool:
         fl = [cls_full(mod, c) for c in cs]
@@ -858,276 +921,383 @@ def run(repo: Repo, rep: Report) -> None:  # noqa: F811
 
     def has_cls(mod, cs: list[ast.AST], full: str) -> bool:
         return any(cls_full(mod, c) == full for c in cs)
-    for y in yields:
-        s_, p_, _o = [norm(e) for e in y.value.elts]
-        facts = H.isinstance_facts(eu, ft, y)
-        s_ok = any(subj == s_ and ((not truth and has_cls(eu, cs, "rdflib.term.Literal")) or (truth and sub_of(eu, cs, "rdflib.term.IdentifiedNode"))) for subj, cs, truth in facts)
-        p_ok = any(subj == p_ and ((truth and sub_of(eu, cs, "rdflib.term.URIRef")) or (not truth and has_cls(eu, cs, "rdflib.term.Literal") and has_cls(eu, cs, "rdflib.term.BNode")))
-                   for subj, cs, truth in facts)
-        rep.ob("C10.o-illegal-terms-skipped", eu, "_fillTemplate", "subject of %s" % norm(y), s_ok,
-               "known not to be a Literal" if s_ok else "the instantiated subject is emitted without a test that it is not a Literal: a template triple whose subject variable is bound to a literal is stored", node=y)
-        rep.ob("C10.o-illegal-terms-skipped", eu, "_fillTemplate", "predicate of %s" % norm(y), p_ok,
-               "known to be a URIRef" if p_ok else "the instantiated predicate is emitted without a test that it is a URIRef: a template triple whose predicate variable is bound to a literal or blank node is stored", node=y)
+
+    # ------------------------------------------------------------------ (m)  F110
+    def rule_m() -> None:
+        rep.rule("C10.m-graph-kind-by-isinstance",
+                 "the SPARQL engine tells a single graph from a dataset (and any other class with subclasses in the package from its siblings) by isinstance, never by "
+                 "comparing type(x) / x.__class__ with the class: an instance of a subclass takes the other branch. `type(ctx.graph) is Graph` sends an instance of a "
+                 "Graph subclass (class MyGraph(Graph)) down the dataset branch, where DELETE/INSERT ... WHERE raises for a missing dataset instead of updating the graph", floor=2)  # 3 on the pinned tree; one of them is a typing-only assert under TYPE_CHECKING
+        for mod in (up, sp, ev, eu):
+            for q, f in mod.functions():
+                for n in own_nodes(f):
+                    if isinstance(n, ast.Call) and isinstance(n.func, ast.Name) and n.func.id == "isinstance" and len(n.args) == 2:
+                        fulls = [cls_full(mod, c) for c in class_list(n.args[1])]
+                        if any(fl and T.is_subclass(fl, "rdflib.graph.Graph") for fl in fulls):
+                            rep.ob("C10.m-graph-kind-by-isinstance", mod, q, n, True, "membership test: instances of subclasses follow their base class", node=n)
+                    elif isinstance(n, ast.Compare):
+                        sides = [n.left] + list(n.comparators)
+                        exact = [s for s in sides if (isinstance(s, ast.Call) and isinstance(s.func, ast.Name) and s.func.id == "type" and len(s.args) == 1)
+                                 or (isinstance(s, ast.Attribute) and s.attr == "__class__")]
+                        if not exact:
+                            continue
+                        for s in sides:
+                            if s in exact:
+                                continue
+                            for c in class_list(s):
+                                fl = cls_full(mod, c)
+                                if fl and len(T.subclasses(fl)) > 1:
+                                    rep.ob("C10.m-graph-kind-by-isinstance", mod, q, n, False,
+                                           "exact-type test against %s, which has subclasses (%s): their instances are treated as not being a %s" % (
+                                               fl, ", ".join(sorted(x.rsplit(".", 1)[-1] for x in T.subclasses(fl) if x != fl)[:4]), fl.rsplit(".", 1)[-1]), node=n)
+
+    # ------------------------------------------------------------------ (n)  F111
+    def rule_n() -> None:
+        rep.rule("C10.n-single-graph-targets-need-no-dataset",
+                 "QueryContext.dataset raises when the update runs on a plain Graph. In the keyword dispatchers of the graph-management operations (a parameter compared with "
+                 "\"DEFAULT\"/\"ALL\"/...) and in the single-target evaluators that call them (CLEAR, DROP), no read of that property is feasible when the context has no dataset and "
+                 "the target is DEFAULT or ALL (branch feasibility from the fixed truth of `ctx._dataset is None` and of the keyword comparisons, short-circuit operands included): "
+                 "DROP DEFAULT, DROP ALL and CLEAR ALL on a plain Graph empty it as CLEAR DEFAULT does", floor=6)
+        qc = sp.methods("QueryContext").get("dataset")
+        if qc is None or not any(isinstance(r, ast.Raise) and any(isinstance(t, ast.Compare) and norm(t.left).endswith("._dataset") for t, v in H.atoms(H.guard_facts(sp, qc, r)))
+                                 for r in own_nodes(qc)):
+            raise AnalysisError("QueryContext.dataset no longer raises under a test of _dataset: rule C10.n has lost its anchor")
+        dispatchers: dict[str, tuple[str, set[str]]] = {}  # function -> (keyword parameter, keywords compared)
+        for q, f in up.functions():
+            if "." in q or len(f.args.args) < 2:
+                continue
+            for a in f.args.args[1:]:
+                kws = {c.comparators[0].value for c in own_nodes(f) if isinstance(c, ast.Compare) and isinstance(c.left, ast.Name) and c.left.id == a.arg and len(c.ops) == 1
+                       and isinstance(c.ops[0], (ast.Eq, ast.NotEq)) and isinstance(c.comparators[0], ast.Constant) and isinstance(c.comparators[0].value, str)}
+                if kws & set(SINGLE_GRAPH_TARGETS):
+                    dispatchers[q] = (a.arg, kws)
+        if not dispatchers:
+            raise AnalysisError("update.py: no function dispatches on the DEFAULT/ALL target keywords")
+        scope: dict[str, set[str]] = {q: kws & set(SINGLE_GRAPH_TARGETS) for q, (_, kws) in dispatchers.items()}
+        for q, f in evaluators.items():
+            calls = [c for c in own_nodes(f) if isinstance(c, ast.Call) and isinstance(c.func, ast.Name) and c.func.id in dispatchers]
+            targets = {norm(c.args[1]) for c in calls if len(c.args) > 1}
+            if calls and len(targets) == 1:  # one target graph reference (ADD/MOVE/COPY have two: their source = target case is rule f)
+                scope[q] = set().union(*(scope[c.func.id] for c in calls))
+        changed = True
+        while changed:  # evaluators that delegate the whole operation to one in scope
+            changed = False
+            for q, f in evaluators.items():
+                for c in own_nodes(f):
+                    if isinstance(c, ast.Call) and isinstance(c.func, ast.Name) and c.func.id in scope and c.func.id in evaluators and \
+                            [norm(a) for a in c.args] == [a.arg for a in f.args.args] and not scope[c.func.id] <= scope.get(q, set()):
+                        scope[q] = scope.get(q, set()) | scope[c.func.id]
+                        changed = True
+        rep.info["C10.n_scope"] = {q: sorted(k) for q, k in scope.items()}
+        for q in sorted(scope):
+            f = up.func(q)
+            rep.analysed("rdflib/plugins/sparql/update.py:" + q)
+            cp = f.args.args[0].arg
+            reads = [n for n in own_nodes(f) if isinstance(n, ast.Attribute) and n.attr == "dataset" and isinstance(n.ctx, ast.Load) and ctx_typed(up, n.value, f)]
+            for r in reads:
+                bad = []
+                for kw in sorted(scope[q]):
+                    env: dict[str, bool | None] = {"%s._dataset is None" % cp: True, "%s._dataset is not None" % cp: False, "%s._dataset" % cp: False}
+                    for c in own_nodes(f):
+                        if isinstance(c, ast.Compare) and len(c.ops) == 1 and isinstance(c.left, ast.Name) and q in dispatchers and c.left.id == dispatchers[q][0]:
+                            k = c.comparators[0]
+                            if isinstance(c.ops[0], (ast.Eq, ast.NotEq)) and isinstance(k, ast.Constant) and isinstance(k.value, str):
+                                env[norm(c)] = (k.value == kw) == isinstance(c.ops[0], ast.Eq)
+                            elif isinstance(c.ops[0], (ast.In, ast.NotIn)) and isinstance(k, (ast.Tuple, ast.List, ast.Set)) and all(isinstance(e, ast.Constant) for e in k.elts):
+                                env[norm(c)] = (kw in {e.value for e in k.elts}) == isinstance(c.ops[0], ast.In)
+                    if H.feasible(up, f, r, env):
+                        bad.append(kw)
+                rep.ob("C10.n-single-graph-targets-need-no-dataset", up, q, "%s in `%s`" % (norm(r), norm(_stmt_of(up, r, f))[:70]), not bad,
+                       "not reached on a context without a dataset for the targets %s" % sorted(scope[q]) if not bad else
+                       "with the target %s on a plain Graph (ctx._dataset is None) this read of the raising property ctx.dataset is reached: the operation raises "
+                       "'operating currently on a single graph' instead of emptying the graph" % "/".join(bad), node=r)
+
+    # ------------------------------------------------------------------ (o)  F112
+    def rule_o() -> None:
+        rep.rule("C10.o-illegal-terms-skipped",
+                 "_fillTemplate (the one instantiator of CONSTRUCT / INSERT / DELETE templates) yields a triple only where its subject is known not to be a Literal and its "
+                 "predicate is known to be a URIRef (isinstance facts that hold at the yield - enclosing tests, early exits before it, or what a predicate helper of the module "
+                 "called on the components says about its arguments where it returns true; the triple is a display of three expressions or a name shown to have three items): "
+                 "`INSERT { ?o ?o ?o } WHERE { <s> <p> ?o }` with ?o bound to \"x\" must skip the triple, not store a literal subject and predicate", floor=2)
+        yields = [(y, H.components(eu, ft, y.value, y, 3)) for y in own_nodes(ft) if isinstance(y, ast.Yield) and y.value is not None]
+        yields = [(y, c) for y, c in yields if c is not None]
+        if not yields:
+            raise AnalysisError("_fillTemplate yields no 3-tuple")
+        for y, (s_, p_, _o) in yields:
+            facts = H.isinstance_facts(eu, ft, y)
+            s_ok = any(subj == s_ and ((not truth and has_cls(eu, cs, "rdflib.term.Literal")) or (truth and sub_of(eu, cs, "rdflib.term.IdentifiedNode"))) for subj, cs, truth in facts)
+            p_ok = any(subj == p_ and ((truth and sub_of(eu, cs, "rdflib.term.URIRef")) or (not truth and has_cls(eu, cs, "rdflib.term.Literal") and has_cls(eu, cs, "rdflib.term.BNode")))
+                       for subj, cs, truth in facts)
+            rep.ob("C10.o-illegal-terms-skipped", eu, "_fillTemplate", "subject of %s" % norm(y), s_ok,
+                   "known not to be a Literal" if s_ok else "the instantiated subject is emitted without a test that it is not a Literal: a template triple whose subject variable is bound to a literal is stored", node=y)
+            rep.ob("C10.o-illegal-terms-skipped", eu, "_fillTemplate", "predicate of %s" % norm(y), p_ok,
+                   "known to be a URIRef" if p_ok else "the instantiated predicate is emitted without a test that it is a URIRef: a template triple whose predicate variable is bound to a literal or blank node is stored", node=y)
 
     # ------------------------------------------------------------------ (p)  F113 F119
-    rep.rule("C10.p-one-bnode-map-per-instantiation",
-             "(1) an update evaluator never inserts triples of the parsed request as they are: they pass through _fillTemplate, which replaces blank node labels by fresh nodes "
-             "(`INSERT DATA { _:a <p> 1 }` sent twice inserts two nodes, not one node named 'a' twice); (2) when one instantiation of an INSERT template - one solution, or the one "
-             "ground instantiation of INSERT DATA - is filled in several parts (default-graph part, GRAPH blocks), every part is given the same blank-node map, made exactly once at "
-             "the top of that instantiation's scope: `INSERT { _:b <p> ?x . GRAPH <g> { _:b <q> ?x } }` uses ONE new node per solution in both graphs", floor=4)
-    params_ft = [a.arg for a in ft.args.args]
-    map_param = None
-    for i, a in enumerate(params_ft):
-        if i >= 2 and any(isinstance(n, ast.Subscript) and isinstance(n.value, ast.Name) and n.value.id == a for n in own_nodes(ft)):
-            map_param = a
-    for q, f in evaluators.items():
-        if len(f.args.args) < 2:
-            continue
-        du = H.DefUse(up, f, {f.args.args[1].arg})
-        groups: dict[int, list[tuple[ast.Call, ast.AST, bool]]] = {}
-        for n in own_nodes(f):
-            if _is_graph_mutation(repo, up.name, n) != "INS":
+    def rule_p() -> None:
+        rep.rule("C10.p-one-bnode-map-per-instantiation",
+                 "(1) an update evaluator never inserts triples of the parsed request as they are: they pass through _fillTemplate, which replaces blank node labels by fresh nodes "
+                 "(`INSERT DATA { _:a <p> 1 }` sent twice inserts two nodes, not one node named 'a' twice); (2) when one instantiation of an INSERT template - one solution, or the one "
+                 "ground instantiation of INSERT DATA - is filled in several parts (default-graph part, GRAPH blocks), every part is given the same blank-node map, made exactly once at "
+                 "the top of that instantiation's scope: `INSERT { _:b <p> ?x . GRAPH <g> { _:b <q> ?x } }` uses ONE new node per solution in both graphs", floor=4)
+        params_ft = [a.arg for a in ft.args.args]
+        map_param = None
+        for i, a in enumerate(params_ft):
+            if i >= 2 and any(isinstance(n, ast.Subscript) and isinstance(n.value, ast.Name) and n.value.id == a for n in own_nodes(ft)):
+                map_param = a
+        for q, f in evaluators.items():
+            if len(f.args.args) < 2:
                 continue
-            if isinstance(n, ast.AugAssign):
-                val = n.value
-            elif isinstance(n, ast.Call) and n.func.attr in ("add", "addN", "__iadd__") and n.args:  # type: ignore[attr-defined]
-                val = n.args[0]
-            else:
-                continue
-            if isinstance(val, ast.Call) and norm(val.func) == "_fillTemplate":
-                scope_node, in_req_loop = f, False
-                for p in up.parents(val):
-                    if isinstance(p, (ast.For, ast.AsyncFor)):
-                        if du.rooted_in(p.iter, p.iter):
-                            in_req_loop = True
-                            continue
-                        scope_node = p
-                        break
-                    if p is f:
-                        break
-                groups.setdefault(id(scope_node), []).append((val, scope_node, in_req_loop))
-            elif du.rooted_in(val, val):
-                rep.ob("C10.p-one-bnode-map-per-instantiation", up, q, n, False,
-                       "triples of the request (%s) are inserted as parsed: a blank node label of the request text becomes the identifier of the stored node, so the same label in two "
-                       "requests (or in the data already there) denotes one node" % norm(val), node=n)
-        for calls in groups.values():
-            scope_node = calls[0][1]
-            several = len(calls) > 1 or any(c[2] for c in calls)
-            margs = []
-            for c, _, _ in calls:
-                m = None
-                if map_param is not None:
-                    pos = params_ft.index(map_param)
-                    if len(c.args) > pos:
-                        m = c.args[pos]
-                    for k in c.keywords:
-                        if k.arg == map_param:
-                            m = k.value
-                margs.append(m)
-            for (c, _, _), m in zip(calls, margs):
-                if not several:
-                    rep.ob("C10.p-one-bnode-map-per-instantiation", up, q, c, True, "the only part of its instantiation", node=c)
+            du = H.DefUse(up, f, {f.args.args[1].arg})
+            groups: dict[int, list[tuple[ast.Call, ast.AST, bool]]] = {}
+            for n in own_nodes(f):
+                if _is_graph_mutation(repo, up.name, n) != "INS":
                     continue
-                why = None
-                if map_param is None:
-                    why = "_fillTemplate has no parameter through which the parts of one template instantiation can share a blank-node map: each part makes its own nodes"
-                elif not isinstance(m, ast.Name):
-                    why = "this part of the template is filled without the blank-node map of its instantiation: the label it shares with the other parts gets a node of its own"
-                elif any(not isinstance(o, ast.Name) or o.id != m.id for o in margs):
-                    why = "the parts of one instantiation are given different blank-node maps"
+                if isinstance(n, ast.AugAssign):
+                    val = n.value
+                elif isinstance(n, ast.Call) and n.func.attr in ("add", "addN", "__iadd__") and n.args:  # type: ignore[attr-defined]
+                    val = n.args[0]
                 else:
-                    bs = du.bindings(m.id)
-                    made = [n for n in own_nodes(f) if isinstance(n, (ast.Assign, ast.AnnAssign)) and norm(n.targets[0] if isinstance(n, ast.Assign) else n.target) == m.id]
-                    if len(bs) != 1 or bs[0][0] != "assign" or not isinstance(bs[0][1], (ast.Call, ast.Dict)) or len(made) != 1 or not any(s is made[0] for s in scope_node.body):  # type: ignore[attr-defined]
-                        why = "the blank-node map %s is not made exactly once, by a fresh construction, at the top of the scope of one instantiation (%s)" % (
-                            m.id, "the body of the loop over solutions" if scope_node is not f else "the operation")
-                rep.ob("C10.p-one-bnode-map-per-instantiation", up, q, c, why is None, why or "shares the one fresh map of its instantiation", node=c)
+                    continue
+                if isinstance(val, ast.Call) and norm(val.func) == "_fillTemplate":
+                    scope_node, in_req_loop = f, False
+                    for p in up.parents(val):
+                        if isinstance(p, (ast.For, ast.AsyncFor)):
+                            if du.rooted_in(p.iter, p.iter):
+                                in_req_loop = True
+                                continue
+                            scope_node = p
+                            break
+                        if p is f:
+                            break
+                    groups.setdefault(id(scope_node), []).append((val, scope_node, in_req_loop))
+                elif du.rooted_in(val, val):
+                    rep.ob("C10.p-one-bnode-map-per-instantiation", up, q, n, False,
+                           "triples of the request (%s) are inserted as parsed: a blank node label of the request text becomes the identifier of the stored node, so the same label in two "
+                           "requests (or in the data already there) denotes one node" % norm(val), node=n)
+            for calls in groups.values():
+                scope_node = calls[0][1]
+                several = len(calls) > 1 or any(c[2] for c in calls)
+                margs = []
+                for c, _, _ in calls:
+                    m = None
+                    if map_param is not None:
+                        pos = params_ft.index(map_param)
+                        if len(c.args) > pos:
+                            m = c.args[pos]
+                        for k in c.keywords:
+                            if k.arg == map_param:
+                                m = k.value
+                    margs.append(m)
+                for (c, _, _), m in zip(calls, margs):
+                    if not several:
+                        rep.ob("C10.p-one-bnode-map-per-instantiation", up, q, c, True, "the only part of its instantiation", node=c)
+                        continue
+                    why = None
+                    if map_param is None:
+                        why = "_fillTemplate has no parameter through which the parts of one template instantiation can share a blank-node map: each part makes its own nodes"
+                    elif not isinstance(m, ast.Name):
+                        why = "this part of the template is filled without the blank-node map of its instantiation: the label it shares with the other parts gets a node of its own"
+                    elif any(not isinstance(o, ast.Name) or o.id != m.id for o in margs):
+                        why = "the parts of one instantiation are given different blank-node maps"
+                    else:
+                        bs = du.bindings(m.id)
+                        made = [n for n in own_nodes(f) if isinstance(n, (ast.Assign, ast.AnnAssign)) and norm(n.targets[0] if isinstance(n, ast.Assign) else n.target) == m.id]
+                        if len(bs) != 1 or bs[0][0] != "assign" or not isinstance(bs[0][1], (ast.Call, ast.Dict)) or len(made) != 1 or not any(s is made[0] for s in scope_node.body):  # type: ignore[attr-defined]
+                            why = "the blank-node map %s is not made exactly once, by a fresh construction, at the top of the scope of one instantiation (%s)" % (
+                                m.id, "the body of the loop over solutions" if scope_node is not f else "the operation")
+                    rep.ob("C10.p-one-bnode-map-per-instantiation", up, q, c, why is None, why or "shares the one fresh map of its instantiation", node=c)
 
     # ------------------------------------------------------------------ (q)  F114 F115 F118
-    rep.rule("C10.q-graph-term-instantiated-or-ground",
-             "a term taken from the parsed request names a graph (get_context) or is stored/removed as data only (i) after instantiation with the solution AND under a test that the "
-             "value is an IdentifiedNode - unbound gives get_context(None), a graph named by a new blank node; a literal gives a graph named by its text - unless the same term is the "
-             "GRAPH term of the pattern that produced the solution; or (ii) as it is, in an operation for which translateUpdate1 raises when a term or graph name is a Variable "
-             "(INSERT DATA / DELETE DATA). `DELETE WHERE { GRAPH ?g { ?s ?p ?o } }` must not look into a graph named by the Variable object ?g; `INSERT DATA { GRAPH ?g { ... } }` must be rejected", floor=8)
-    tu = alg.func("translateUpdate1")
-    ground: set[str] = set()
-    for r in [r for r in own_nodes(tu) if isinstance(r, ast.Raise)]:
-        fa = list(H.atoms(H.guard_facts(alg, tu, r)))
-        var_tests = [e for e, truth in fa if truth and any(isinstance(c, ast.Call) and isinstance(c.func, ast.Name) and c.func.id == "isinstance" and len(c.args) == 2
-                                                          and any(cls_full(alg, x) == "rdflib.term.Variable" for x in class_list(c.args[1])) for c in ast.walk(e))]
-        if not var_tests:
-            continue
-        names: set[str] | None = None
-        for e, truth in fa:  # innermost first
-            if truth and isinstance(e, ast.Compare) and norm(e.left).endswith(".name") and len(e.ops) == 1:
-                k = e.comparators[0]
-                if isinstance(e.ops[0], ast.In) and isinstance(k, (ast.Tuple, ast.List, ast.Set)):
-                    names = {x.value for x in k.elts if isinstance(x, ast.Constant)}
-                elif isinstance(e.ops[0], ast.Eq) and isinstance(k, ast.Constant):
-                    names = {k.value}
-                if names is not None:
-                    break
-        if not names:
-            continue
-        # the test must look at the terms of the triples and at the graph names: both results of translateQuads
-        pair = None
-        for n in own_nodes(tu):
-            if isinstance(n, ast.Assign) and isinstance(n.targets[0], ast.Tuple) and len(n.targets[0].elts) == 2 and isinstance(n.value, ast.Call) and norm(n.value.func) == "translateQuads" \
-                    and all(isinstance(e, ast.Name) for e in n.targets[0].elts):
-                facts_n = {norm(e) for e, t in H.atoms(H.guard_facts(alg, tu, n)) if t}
-                if any(norm(e) in facts_n for e, t in fa if t and norm(e.left if isinstance(e, ast.Compare) else e).endswith(".name")):
-                    pair = [e.id for e in n.targets[0].elts]
-        du_tu = H.DefUse(alg, tu, set())
-        seen_names: set[str] = set()
-        work = [x for e in var_tests for x in H._names(e)]
-        while work:
-            x = work.pop()
-            if x in seen_names:
+    def rule_q() -> None:
+        rep.rule("C10.q-graph-term-instantiated-or-ground",
+                 "a term taken from the parsed request names a graph (get_context) or is stored/removed as data only (i) after instantiation with the solution AND under a test that the "
+                 "value is an IdentifiedNode - unbound gives get_context(None), a graph named by a new blank node; a literal gives a graph named by its text - unless the same term is the "
+                 "GRAPH term of the pattern that produced the solution; or (ii) as it is, in an operation for which translateUpdate1 raises when a term or graph name is a Variable "
+                 "(INSERT DATA / DELETE DATA). `DELETE WHERE { GRAPH ?g { ?s ?p ?o } }` must not look into a graph named by the Variable object ?g; `INSERT DATA { GRAPH ?g { ... } }` must be rejected", floor=8)
+        ground: set[str] = set()
+        for r in [r for r in own_nodes(tu) if isinstance(r, ast.Raise)]:
+            fa = list(H.atoms(H.guard_facts(alg, tu, r)))
+            var_tests = [e for e, truth in fa if truth and any(isinstance(c, ast.Call) and isinstance(c.func, ast.Name) and c.func.id == "isinstance" and len(c.args) == 2
+                                                              and any(cls_full(alg, x) == "rdflib.term.Variable" for x in class_list(c.args[1])) for c in ast.walk(e))]
+            if not var_tests:
                 continue
-            seen_names.add(x)
-            for kind, src, _ in du_tu.bindings(x):
-                work.extend(H._names(src.iter if kind in ("for", "comp") else src))  # type: ignore[attr-defined]
-        covers = pair is not None and set(pair) <= seen_names
-        rep.ob("C10.q-graph-term-instantiated-or-ground", alg, "translateUpdate1", "ground-data test for %s: %s" % (sorted(names), norm(var_tests[0])[:90]), covers,
-               "looks at the terms of the triples and at the graph names" if covers else
-               "the Variable test does not reach both results of translateQuads (%s): a variable as %s is not rejected" % (pair, "graph name or term"), node=r)
-        if covers:
-            ground |= names
-    rep.info["C10.q_ground_checked_operations"] = sorted(ground)
-    if not ground:
-        rep.ob("C10.q-graph-term-instantiated-or-ground", alg, "translateUpdate1", "a test that rejects Variables in ground data (INSERT DATA / DELETE DATA)", False,
-               "translateUpdate1 raises nowhere under an isinstance(..., Variable) test that covers the triples and graph names of an operation: `INSERT DATA { ?s <p> ?o }` is accepted", node=tu)
-    for q, f in evaluators.items():
-        if len(f.args.args) < 2 or q not in op_of:
-            continue
-        du = H.DefUse(up, f, {f.args.args[1].arg})
-        op = op_of[q]
-        graph_patterns = set()  # containers whose keys are evaluated as the GRAPH term of a pattern handed to evalPart
-        for c in own_nodes(f):
-            if isinstance(c, ast.Call) and norm(c.func) == "CompValue" and c.args and isinstance(c.args[0], ast.Constant) and c.args[0].value == "Graph":
-                term = [k.value for k in c.keywords if k.arg == "term"]
-                key = du.request_key(term[0], c) if term else None
-                if key is None:
+            names: set[str] | None = None
+            for e, truth in fa:  # innermost first
+                if truth and isinstance(e, ast.Compare) and norm(e.left).endswith(".name") and len(e.ops) == 1:
+                    k = e.comparators[0]
+                    if isinstance(e.ops[0], ast.In) and isinstance(k, (ast.Tuple, ast.List, ast.Set)):
+                        names = {x.value for x in k.elts if isinstance(x, ast.Constant)}
+                    elif isinstance(e.ops[0], ast.Eq) and isinstance(k, ast.Constant):
+                        names = {k.value}
+                    if names is not None:
+                        break
+            if not names:
+                continue
+            # the test must look at the terms of the triples and at the graph names: both results of translateQuads
+            pair = None
+            for n in own_nodes(tu):
+                if isinstance(n, ast.Assign) and isinstance(n.targets[0], ast.Tuple) and len(n.targets[0].elts) == 2 and isinstance(n.value, ast.Call) and norm(n.value.func) == "translateQuads" \
+                        and all(isinstance(e, ast.Name) for e in n.targets[0].elts):
+                    facts_n = {norm(e) for e, t in H.atoms(H.guard_facts(alg, tu, n)) if t}
+                    if any(norm(e) in facts_n for e, t in fa if t and norm(e.left if isinstance(e, ast.Compare) else e).endswith(".name")):
+                        pair = [e.id for e in n.targets[0].elts]
+            du_tu = H.DefUse(alg, tu, set())
+            seen_names: set[str] = set()
+            work = [x for e in var_tests for x in H._names(e)]
+            while work:
+                x = work.pop()
+                if x in seen_names:
                     continue
-                holders = {norm(c)} | {norm(a.targets[0]) for a in own_nodes(f) if isinstance(a, ast.Assign) and a.value is c}
-                if any(isinstance(e, ast.Call) and norm(e.func) == "evalPart" and any(norm(a) in holders for a in e.args) for e in own_nodes(f)):
-                    graph_patterns.add(key)
-        for c in own_nodes(f):
-            if isinstance(c, ast.Call) and isinstance(c.func, ast.Attribute) and c.func.attr == "get_context" and len(c.args) == 1:
-                a = c.args[0]
-                key = du.request_key(a, c)
-                look = du.solution_lookup(a, c) if key is None else None
-                if key is not None:
-                    ok = op in ground
-                    rep.ob("C10.q-graph-term-instantiated-or-ground", up, q, c, ok,
-                           "%s data is checked to be ground by translateUpdate1" % op if ok else
-                           "the graph term of the request (a key of %s) names the graph as it is, but translateUpdate1 does not reject a Variable there for %s: the operation reads/"
-                           "writes a graph named by the Variable object" % (key, op), node=c)
-                elif look is not None:
-                    subj = {norm(a), norm(look[1])}
-                    facts = H.isinstance_facts(up, f, c)
-                    nn = H.not_none_facts(up, f, c)
-                    guarded = any(s in subj and ((truth and sub_of(up, cs, "rdflib.term.IdentifiedNode")) or
-                                                 (not truth and has_cls(up, cs, "rdflib.term.Literal") and (subj & nn))) for s, cs, truth in facts)
-                    bound_by_pattern = look[0] in graph_patterns
-                    ok = guarded or bound_by_pattern
-                    rep.ob("C10.q-graph-term-instantiated-or-ground", up, q, c, ok,
-                           ("under a test that the instantiated graph term is an IdentifiedNode" if guarded else "the term is the GRAPH term of the pattern that produced the solution: bound to a graph name") if ok else
-                           "the instantiated graph term %s names the graph without a test that it is an IdentifiedNode: unbound -> get_context(None) writes to a graph named by a new "
-                           "blank node, a literal -> a graph named by its text; the GRAPH block must be skipped" % norm(look[1]), node=c)
-        for n in own_nodes(f):
-            k = _is_graph_mutation(repo, up.name, n)
-            if not k:
+                seen_names.add(x)
+                for kind, src, _ in du_tu.bindings(x):
+                    work.extend(H._names(src.iter if kind in ("for", "comp") else src))  # type: ignore[attr-defined]
+            covers = pair is not None and set(pair) <= seen_names
+            rep.ob("C10.q-graph-term-instantiated-or-ground", alg, "translateUpdate1", "ground-data test for %s: %s" % (sorted(names), norm(var_tests[0])[:90]), covers,
+                   "looks at the terms of the triples and at the graph names" if covers else
+                   "the Variable test does not reach both results of translateQuads (%s): a variable as %s is not rejected" % (pair, "graph name or term"), node=r)
+            if covers:
+                ground |= names
+        rep.info["C10.q_ground_checked_operations"] = sorted(ground)
+        if not ground:
+            rep.ob("C10.q-graph-term-instantiated-or-ground", alg, "translateUpdate1", "a test that rejects Variables in ground data (INSERT DATA / DELETE DATA)", False,
+                   "translateUpdate1 raises nowhere under an isinstance(..., Variable) test that covers the triples and graph names of an operation: `INSERT DATA { ?s <p> ?o }` is accepted", node=tu)
+        for q, f in evaluators.items():
+            if len(f.args.args) < 2 or q not in op_of:
                 continue
-            if isinstance(n, ast.AugAssign):
-                val = n.value
-            elif isinstance(n, ast.Call) and n.func.attr in ("add", "addN", "remove", "__iadd__", "__isub__") and n.args:  # type: ignore[attr-defined]
-                val = n.args[0]
-            else:
-                continue
-            if isinstance(val, ast.Call) or not du.rooted_in(val, val):
-                continue
-            ok = op in ground
-            rep.ob("C10.q-graph-term-instantiated-or-ground", up, q, n, ok,
-                   "%s data is checked to be ground by translateUpdate1" % op if ok else
-                   "triples of the request (%s) are %s as they are, but translateUpdate1 does not reject variables for %s: Variable objects reach the store" % (
-                       norm(val), "removed" if k == "DEL" else "stored", op), node=n)
+            du = H.DefUse(up, f, {f.args.args[1].arg})
+            op = op_of[q]
+            graph_patterns = set()  # containers whose keys are evaluated as the GRAPH term of a pattern handed to evalPart
+            for c in own_nodes(f):
+                if isinstance(c, ast.Call) and norm(c.func) == "CompValue" and c.args and isinstance(c.args[0], ast.Constant) and c.args[0].value == "Graph":
+                    term = [k.value for k in c.keywords if k.arg == "term"]
+                    key = du.request_key(term[0], c) if term else None
+                    if key is None:
+                        continue
+                    holders = {norm(c)} | {norm(a.targets[0]) for a in own_nodes(f) if isinstance(a, ast.Assign) and a.value is c}
+                    if any(isinstance(e, ast.Call) and norm(e.func) == "evalPart" and any(norm(a) in holders for a in e.args) for e in own_nodes(f)):
+                        graph_patterns.add(key)
+            for c in own_nodes(f):
+                if isinstance(c, ast.Call) and isinstance(c.func, ast.Attribute) and c.func.attr == "get_context" and len(c.args) == 1:
+                    a = c.args[0]
+                    key = du.request_key(a, c)
+                    look = du.solution_lookup(a, c) if key is None else None
+                    if key is not None:
+                        ok = op in ground
+                        rep.ob("C10.q-graph-term-instantiated-or-ground", up, q, c, ok,
+                               "%s data is checked to be ground by translateUpdate1" % op if ok else
+                               "the graph term of the request (a key of %s) names the graph as it is, but translateUpdate1 does not reject a Variable there for %s: the operation reads/"
+                               "writes a graph named by the Variable object" % (key, op), node=c)
+                    elif look is not None:
+                        subj = {norm(a), norm(look[1])}
+                        facts = H.isinstance_facts(up, f, c)
+                        nn = H.not_none_facts(up, f, c)
+                        guarded = any(s in subj and ((truth and sub_of(up, cs, "rdflib.term.IdentifiedNode")) or
+                                                     (not truth and has_cls(up, cs, "rdflib.term.Literal") and (subj & nn))) for s, cs, truth in facts)
+                        bound_by_pattern = look[0] in graph_patterns
+                        ok = guarded or bound_by_pattern
+                        rep.ob("C10.q-graph-term-instantiated-or-ground", up, q, c, ok,
+                               ("under a test that the instantiated graph term is an IdentifiedNode" if guarded else "the term is the GRAPH term of the pattern that produced the solution: bound to a graph name") if ok else
+                               "the instantiated graph term %s names the graph without a test that it is an IdentifiedNode: unbound -> get_context(None) writes to a graph named by a new "
+                               "blank node, a literal -> a graph named by its text; the GRAPH block must be skipped" % norm(look[1]), node=c)
+            for n in own_nodes(f):
+                k = _is_graph_mutation(repo, up.name, n)
+                if not k:
+                    continue
+                if isinstance(n, ast.AugAssign):
+                    val = n.value
+                elif isinstance(n, ast.Call) and n.func.attr in ("add", "addN", "remove", "__iadd__", "__isub__") and n.args:  # type: ignore[attr-defined]
+                    val = n.args[0]
+                else:
+                    continue
+                if isinstance(val, ast.Call) or not du.rooted_in(val, val):
+                    continue
+                ok = op in ground
+                rep.ob("C10.q-graph-term-instantiated-or-ground", up, q, n, ok,
+                       "%s data is checked to be ground by translateUpdate1" % op if ok else
+                       "triples of the request (%s) are %s as they are, but translateUpdate1 does not reject variables for %s: Variable objects reach the store" % (
+                           norm(val), "removed" if k == "DEL" else "stored", op), node=n)
 
     # ------------------------------------------------------------------ (r)  F116
-    rep.rule("C10.r-using-is-a-dataset-clause",
-             "USING / USING NAMED are interpreted by the code that interprets FROM / FROM NAMED: the update evaluator hands `u.using` to QueryContext(datasetClause=...) as evalQuery "
-             "hands the query's clause, and uses it otherwise only as a truth value; QueryContext.load (which fetches a document) is called by the LOAD evaluator only. "
-             "`DELETE { ?s ?p ?o } USING <g1> WHERE { GRAPH <g2> { ?s ?p ?o } }` must not see <g2>, and <g1> is read from the store, not from the network", floor=7)
-    eq = ev.func("evalQuery")
-    sib = [c for c in own_nodes(eq) if isinstance(c, ast.Call) and norm(c.func) == "QueryContext" and any(k.arg == "datasetClause" for k in c.keywords)]
-    if not sib:
-        raise AnalysisError("evalQuery no longer passes datasetClause to QueryContext: the sibling of rule C10.r vanished")
-    rep.ob("C10.r-using-is-a-dataset-clause", ev, "evalQuery", sib[0], True, "FROM / FROM NAMED: the reference reading of a dataset clause", node=sib[0])
-    for q, f in evaluators.items():
-        for c in own_nodes(f):
-            if isinstance(c, ast.Call) and isinstance(c.func, ast.Attribute) and c.func.attr == "load" and ctx_typed(up, c.func.value, f):
-                ok = op_of.get(q) == "Load"
-                rep.ob("C10.r-using-is-a-dataset-clause", up, q, c, ok, "LOAD" if ok else
-                       "%s fetches a document into the context: only LOAD reads from outside the store; a dataset clause selects among the graphs the store has" % q, node=c)
-        if len(f.args.args) < 2:
-            continue
-        un = f.args.args[1].arg
-        uses = [n for n in own_nodes(f) if isinstance(n, ast.Attribute) and n.attr == "using" and isinstance(n.value, ast.Name) and n.value.id == un]
-        handed = 0
-        for n in uses:
-            child: ast.AST = n
-            kind = None
-            for p in up.parents(n):
-                if isinstance(p, ast.BoolOp) or (isinstance(p, ast.UnaryOp) and isinstance(p.op, ast.Not)):
-                    child = p
-                    continue
-                if isinstance(p, (ast.If, ast.While, ast.IfExp)) and p.test is child:
-                    kind = "truth"
-                elif isinstance(p, ast.keyword) and p.arg == "datasetClause" and child is n:
-                    call = up.parent.get(id(p))
-                    if isinstance(call, ast.Call) and norm(call.func) == "QueryContext":
-                        kind = "dataset"
-                        handed += 1
-                break
-            rep.ob("C10.r-using-is-a-dataset-clause", up, q, "%s in `%s`" % (norm(n), norm(_stmt_of(up, n, f))[:70]), kind is not None,
-                   {"truth": "presence test", "dataset": "handed to QueryContext as the dataset clause"}.get(kind or "", "") if kind else
-                   "the USING clauses are interpreted here by hand instead of being handed to QueryContext(datasetClause=...): graphs not listed stay visible to GRAPH patterns "
-                   "and listed graphs are loaded instead of read from the store", node=n)
-        if uses and not handed:
-            rep.ob("C10.r-using-is-a-dataset-clause", up, q, "QueryContext(..., datasetClause=%s.using)" % un, False,
-                   "the USING clauses never reach QueryContext as a dataset clause", node=f)
+    def rule_r() -> None:
+        rep.rule("C10.r-using-is-a-dataset-clause",
+                 "USING / USING NAMED are interpreted by the code that interprets FROM / FROM NAMED: the update evaluator hands `u.using` to QueryContext(datasetClause=...) as evalQuery "
+                 "hands the query's clause, and uses it otherwise only as a truth value; QueryContext.load (which fetches a document) is called by the LOAD evaluator only. "
+                 "`DELETE { ?s ?p ?o } USING <g1> WHERE { GRAPH <g2> { ?s ?p ?o } }` must not see <g2>, and <g1> is read from the store, not from the network", floor=7)
+        eq = ev.func("evalQuery")
+        sib = [c for c in own_nodes(eq) if isinstance(c, ast.Call) and norm(c.func) == "QueryContext" and any(k.arg == "datasetClause" for k in c.keywords)]
+        if not sib:
+            raise AnalysisError("evalQuery no longer passes datasetClause to QueryContext: the sibling of rule C10.r vanished")
+        rep.ob("C10.r-using-is-a-dataset-clause", ev, "evalQuery", sib[0], True, "FROM / FROM NAMED: the reference reading of a dataset clause", node=sib[0])
+        for q, f in evaluators.items():
+            for c in own_nodes(f):
+                if isinstance(c, ast.Call) and isinstance(c.func, ast.Attribute) and c.func.attr == "load" and ctx_typed(up, c.func.value, f):
+                    ok = op_of.get(q) == "Load"
+                    rep.ob("C10.r-using-is-a-dataset-clause", up, q, c, ok, "LOAD" if ok else
+                           "%s fetches a document into the context: only LOAD reads from outside the store; a dataset clause selects among the graphs the store has" % q, node=c)
+            if len(f.args.args) < 2:
+                continue
+            un = f.args.args[1].arg
+            uses = [n for n in own_nodes(f) if isinstance(n, ast.Attribute) and n.attr == "using" and isinstance(n.value, ast.Name) and n.value.id == un]
+            handed = 0
+            for n in uses:
+                child: ast.AST = n
+                kind = None
+                for p in up.parents(n):
+                    if isinstance(p, ast.BoolOp) or (isinstance(p, ast.UnaryOp) and isinstance(p.op, ast.Not)):
+                        child = p
+                        continue
+                    if isinstance(p, (ast.If, ast.While, ast.IfExp)) and p.test is child:
+                        kind = "truth"
+                    elif isinstance(p, ast.keyword) and p.arg == "datasetClause" and child is n:
+                        call = up.parent.get(id(p))
+                        if isinstance(call, ast.Call) and norm(call.func) == "QueryContext":
+                            kind = "dataset"
+                            handed += 1
+                    break
+                rep.ob("C10.r-using-is-a-dataset-clause", up, q, "%s in `%s`" % (norm(n), norm(_stmt_of(up, n, f))[:70]), kind is not None,
+                       {"truth": "presence test", "dataset": "handed to QueryContext as the dataset clause"}.get(kind or "", "") if kind else
+                       "the USING clauses are interpreted here by hand instead of being handed to QueryContext(datasetClause=...): graphs not listed stay visible to GRAPH patterns "
+                       "and listed graphs are loaded instead of read from the store", node=n)
+            if uses and not handed:
+                rep.ob("C10.r-using-is-a-dataset-clause", up, q, "QueryContext(..., datasetClause=%s.using)" % un, False,
+                       "the USING clauses never reach QueryContext as a dataset clause", node=f)
 
     # ------------------------------------------------------------------ (s)  F117
-    rep.rule("C10.s-where-processed-like-a-query-pattern",
-             "every algebra pass translateQuery applies (functions handed to traverse / _traverse / _traverseAgg) is also applied to the update: to the whole operation in "
-             "translateUpdate or to the WHERE pattern in translateUpdate1. Without `simplify` / `analyse` / `_addVars` a Join with the empty BGP stays and no join is lazy, so in "
-             "`INSERT { ... } WHERE { GRAPH ?g { ?s ?p ?o OPTIONAL { ... } } }` the inner pattern is not evaluated in ?g for every solution", floor=4)
+    def rule_s() -> None:
+        rep.rule("C10.s-where-processed-like-a-query-pattern",
+                 "every algebra pass translateQuery applies (functions handed to traverse / _traverse / _traverseAgg) is also applied to the update: to the whole operation in "
+                 "translateUpdate or to the WHERE pattern in translateUpdate1. Without `simplify` / `analyse` / `_addVars` a Join with the empty BGP stays and no join is lazy, so in "
+                 "`INSERT { ... } WHERE { GRAPH ?g { ?s ?p ?o OPTIONAL { ... } } }` the inner pattern is not evaluated in ?g for every solution", floor=4)
 
-    def passes(fn: ast.FunctionDef, only_where: bool = False) -> dict[str, ast.Call]:
-        out: dict[str, ast.Call] = {}
-        for c in own_nodes(fn):
-            if not (isinstance(c, ast.Call) and isinstance(c.func, ast.Name) and c.func.id in _TRAVERSERS and c.args):
-                continue
-            if only_where and not any((isinstance(x, ast.Attribute) and x.attr == "where") or (isinstance(x, ast.Subscript) and isinstance(x.slice, ast.Constant) and x.slice.value == "where")
-                                      for x in ast.walk(c.args[0])):
-                continue
-            for v in list(c.args[1:]) + [k.value for k in c.keywords]:
-                if isinstance(v, ast.Call) and norm(v.func).endswith("partial") and v.args:
-                    v = v.args[0]
-                if isinstance(v, ast.Name) and alg.has(v.id):
-                    out[v.id] = c
-        return out
-    tq_ = alg.func("translateQuery")
-    qpasses = passes(tq_)
-    if len(qpasses) < 3:
-        raise AnalysisError("translateQuery: expected >= 3 algebra passes, found %s" % sorted(qpasses))
-    upasses = dict(passes(alg.func("translateUpdate")))
-    upasses.update(passes(tu, only_where=True))
-    for v in sorted(qpasses):
-        ok = v in upasses
-        rep.ob("C10.s-where-processed-like-a-query-pattern", alg, "translateUpdate1", "pass %s (translateQuery: %s)" % (v, norm(qpasses[v])[:60]), ok,
-               "applied: %s" % norm(upasses[v])[:70] if ok else
-               "translateQuery runs %s over the algebra, the translation of an update never does: the WHERE pattern of DELETE/INSERT is evaluated in a form no query pattern has" % v, node=tu)
+        def passes(fn: ast.FunctionDef, only_where: bool = False) -> dict[str, ast.Call]:
+            out: dict[str, ast.Call] = {}
+            for c in own_nodes(fn):
+                if not (isinstance(c, ast.Call) and isinstance(c.func, ast.Name) and c.func.id in _TRAVERSERS and c.args):
+                    continue
+                if only_where and not any((isinstance(x, ast.Attribute) and x.attr == "where") or (isinstance(x, ast.Subscript) and isinstance(x.slice, ast.Constant) and x.slice.value == "where")
+                                          for x in ast.walk(c.args[0])):
+                    continue
+                for v in list(c.args[1:]) + [k.value for k in c.keywords]:
+                    if isinstance(v, ast.Call) and norm(v.func).endswith("partial") and v.args:
+                        v = v.args[0]
+                    if isinstance(v, ast.Name) and alg.has(v.id):
+                        out[v.id] = c
+            return out
+        tq_ = alg.func("translateQuery")
+        qpasses = passes(tq_)
+        if len(qpasses) < 3:
+            raise AnalysisError("translateQuery: expected >= 3 algebra passes, found %s" % sorted(qpasses))
+        upasses = dict(passes(alg.func("translateUpdate")))
+        upasses.update(passes(tu, only_where=True))
+        for v in sorted(qpasses):
+            ok = v in upasses
+            rep.ob("C10.s-where-processed-like-a-query-pattern", alg, "translateUpdate1", "pass %s (translateQuery: %s)" % (v, norm(qpasses[v])[:60]), ok,
+                   "applied: %s" % norm(upasses[v])[:70] if ok else
+                   "translateQuery runs %s over the algebra, the translation of an update never does: the WHERE pattern of DELETE/INSERT is evaluated in a form no query pattern has" % v, node=tu)
+
+    for sec in (rule_m, rule_n, rule_o, rule_p, rule_q, rule_r, rule_s):
+        _section(rep, repo, sec)
 
 
 def _stmt_of(mod, node: ast.AST, fn: ast.AST) -> ast.AST:
@@ -1144,3 +1314,329 @@ def _stmt_of(mod, node: ast.AST, fn: ast.AST) -> ast.AST:
             break
         child = p
     return node
+
+
+# ======================================================================================================================
+# rules t-y: structural conditions behind the repaired defects F286-F291 (request-level structure: the prologue folded over the
+# operations, what the translator hands back, the shape of the request grammar, what a USING context may fetch, missing sources)
+# ======================================================================================================================
+_run_base3 = run
+
+# modules a request passes on its way from text to the store
+_UPDATE_PIPELINE = ("rdflib.plugins.sparql.parser", "rdflib.plugins.sparql.algebra", "rdflib.plugins.sparql.processor", "rdflib.plugins.sparql.update")
+
+
+def run(repo: Repo, rep: Report) -> None:  # noqa: F811
+    _layer(rep, _run_base3, repo)
+    from vlib import h_c10 as H
+    from vlib.cfg import reaching_defs
+    from vlib.h_c04 import Grammar
+
+    T = repo.typed
+    up = repo.mod("rdflib.plugins.sparql.update")
+    alg = repo.mod("rdflib.plugins.sparql.algebra")
+    sp = repo.mod("rdflib.plugins.sparql.sparql")
+    par = repo.mod("rdflib.plugins.sparql.parser")
+    rep.extra["explanation"] = rep.extra.get("explanation", "") + (
+        " (t) what the caller gives as default for the whole request (base, initNs) is written into the prologue only on the step that creates it; "
+        "(u) a step that folds later declarations never writes into the prologue object it was handed, because the operations before it keep that object; "
+        "(v) every return of the request pipeline hands out an instance of the declared class (the request without operations too); "
+        "(w) no grammar symbol is a list by right recursion: the request grammar iterates over its operations; "
+        "(x) a context built by an update evaluator cannot reach a document fetch: the fetching calls of QueryContext.__init__ are infeasible under the "
+        "constant arguments of the construction; (y) the source of ADD/MOVE/COPY comes from a helper that raises when the graph does not exist, before any mutation.")
+
+    def cls_full(mod, node: ast.AST) -> str | None:
+        r = T.ref(mod.name, node)
+        if r and r in T.classes:
+            return r
+        nm = node.id if isinstance(node, ast.Name) else node.attr if isinstance(node, ast.Attribute) else None
+        cands = [c for c in T.classes if c.rsplit(".", 1)[-1] == nm]
+        return cands[0] if len(cands) == 1 else None
+
+    # ------------------------------------------------------------------ (t) (u)  F286 F287
+    def rule_tu() -> None:
+        rep.rule("C10.t-request-defaults-applied-once",
+                 "where the translator folds the declarations of a request into one accumulator, step by step in a loop (`acc = f(item, ..., acc)`, f creates the accumulator when it is "
+                 "handed None), the arguments that are the same on every step - parameters of the translating function: the base and the namespaces given from outside - are written into "
+                 "the accumulator only on the step that creates it (the write is infeasible when the accumulator parameter is not None at entry). Otherwise "
+                 "`g.update('BASE <http://a/> INSERT DATA { <x> <p> 1 } ; INSERT DATA { <y> <p> 2 }', base='http://b/')` resolves <y> against http://b/: the outside default overrides "
+                 "the BASE / PREFIX the request has declared, from the second operation on", floor=3)
+        rep.rule("C10.u-operation-keeps-its-prologue",
+                 "the accumulator of such a fold is kept by the operation translated on the same step (the callee stores it: `u.prologue = prologue`, read at evaluation time by IRI() / "
+                 "relative IRIs). So a later step never writes into the object it was handed: under `accumulator is not None at entry`, for every truth value of the other parameters, "
+                 "each feasible write (attribute store, state-changing method) is reached only by a binding of the accumulator to a new object made in this call (a loop over a "
+                 "parameter that is false is not entered). Otherwise `INSERT { ?s <p> ?i } WHERE { ?s <q> ?o BIND(IRI('x') AS ?i) } ; BASE <http://b/> INSERT DATA { ... }` "
+                 "resolves the first operation's IRI('x') against <http://b/>", floor=3)
+        folds = []
+        for q, fn, loop, st, callee, accp in H.fold_sites(alg):
+            params = [a.arg for a in callee.args.args]
+            defaults = dict(zip(reversed(params), reversed(callee.args.defaults)))
+            d = defaults.get(accp)
+            if isinstance(d, ast.Constant) and d.value is None:  # the first step creates the accumulator
+                folds.append((q, fn, loop, st, callee, accp))
+        rep.info["C10.t_folds"] = ["%s: %s" % (q, norm(st)) for q, _, _, st, _, _ in folds]  # (none left: the floors of t and u report the lost anchor)
+        for q, fn, loop, st, callee, accp in folds:
+            rep.analysed("rdflib/plugins/sparql/algebra.py:" + callee.name)
+            call = st.value
+            accname = st.targets[0].id
+            params = [a.arg for a in callee.args.args]
+            own_params = {a.arg for a in fn.args.args + fn.args.kwonlyargs}
+            stored = {n.id for n in own_nodes(fn) if isinstance(n, ast.Name) and isinstance(n.ctx, (ast.Store, ast.Del))}
+            invariant = set()
+            for a in list(call.args) + [k.value for k in call.keywords]:
+                if isinstance(a, ast.Name) and a.id in own_params and a.id not in stored:
+                    p = H.param_of_arg(callee, call, a)
+                    if p is not None and p != accp:
+                        invariant.add(p)
+            rep.ob("C10.t-request-defaults-applied-once", alg, q, st, True, "fold step; same on every step: %s" % sorted(invariant), node=st)
+            # class of the accumulator and its state-changing methods
+            ann = [a.annotation for a in callee.args.args if a.arg == accp][0]
+            acc_cls = None
+            for n in ast.walk(ann) if ann is not None else []:
+                if isinstance(n, (ast.Name, ast.Attribute)):
+                    fl = cls_full(alg, n)
+                    if fl:
+                        acc_cls = fl
+            if acc_cls is None:
+                raise AnalysisError("%s: class of the accumulator parameter %s not resolved" % (callee.name, accp))
+            cmod = repo.mod(acc_cls.rsplit(".", 1)[0])
+            mutators = H.self_mutators(cmod, acc_cls.rsplit(".", 1)[1])
+            writes = H.acc_writes(alg, callee, accp, mutators)
+            if not writes:
+                raise AnalysisError("%s: no write into the accumulator %s found" % (callee.name, accp))
+            g = CFG(callee)
+            # (no `acc is None` test on the entry value: nothing tells the creating step from the later ones, every write below is feasible on every step)
+            base_env = H.entry_atoms(g, alg, callee, accp) or {}
+            du = H.DefUse(alg, callee, invariant)
+            for w, vals in writes:
+                if not any(du.rooted_in(n, n) for v in vals for n in ast.walk(v) if isinstance(n, ast.Name)):
+                    continue
+                later = reaching_defs(g, g.node_of(w, alg), accp, base_env)
+                rep.ob("C10.t-request-defaults-applied-once", alg, callee.name, w, not later,
+                       "only on the step that creates the accumulator" if not later else
+                       "this write of a value that is the same on every step (%s) is also executed when %s is handed an accumulator: from the second operation on it overrides "
+                       "what the request has declared before" % ("/".join(sorted(invariant)), callee.name), node=w)
+            # (u) does the accumulator escape on each step?
+            keeps = []
+            for c in [n for s in loop.body for n in ast.walk(s)]:
+                if not (isinstance(c, ast.Call) and c is not call and isinstance(c.func, ast.Name) and alg.has(c.func.id) and isinstance(alg.defs[c.func.id], ast.FunctionDef)):
+                    continue
+                for a in list(c.args) + [k.value for k in c.keywords]:
+                    if isinstance(a, ast.Name) and a.id == accname:
+                        kp = H.param_of_arg(alg.defs[c.func.id], c, a)
+                        if kp and any(isinstance(s, ast.Assign) and isinstance(s.value, ast.Name) and s.value.id == kp and any(isinstance(t, (ast.Attribute, ast.Subscript)) for t in s.targets)
+                                      for s in own_nodes(alg.defs[c.func.id])):
+                            keeps.append(c)
+            if not keeps:
+                continue
+            rep.ob("C10.u-operation-keeps-its-prologue", alg, q, keeps[0], True, "the operation of this step keeps the accumulator object", node=keeps[0])
+            atoms = sorted({n.test.id for n in own_nodes(callee) if isinstance(n, (ast.If, ast.While)) and isinstance(n.test, ast.Name) and n.test.id in params and n.test.id != accp}
+                           | {n.iter.id for n in own_nodes(callee) if isinstance(n, ast.For) and isinstance(n.iter, ast.Name) and n.iter.id in params and n.iter.id != accp})
+            if len(atoms) > 5:
+                raise AnalysisError("%s: too many parameter tests to enumerate" % callee.name)
+            for w, _vals in writes:
+                wn = g.node_of(w, alg)
+                bad = None
+                feasible_any = False
+                for bits in range(1 << len(atoms)):
+                    env = dict(base_env)
+                    for i, a in enumerate(atoms):
+                        env[a] = bool(bits >> i & 1)
+                    if any(isinstance(p_, ast.For) and isinstance(p_.iter, ast.Name) and env.get(p_.iter.id) is False and not any(x is w for s in p_.orelse for x in ast.walk(s))
+                           for p_ in alg.parents(w)):
+                        continue  # inside a loop over something false: not entered
+                    defs = reaching_defs(g, wn, accp, env)
+                    if not defs:
+                        continue
+                    feasible_any = True
+                    for dnode in defs:
+                        if dnode == g.entry:
+                            bad = "is reached with the object %s was handed (when %s)" % (callee.name, ", ".join("%s is %s" % (a, "true" if env[a] else "false") for a in atoms) or "called again")
+                        else:
+                            bv = H.bound_value(g.nodes[dnode].ast, accp)
+                            if not isinstance(bv, ast.Call):
+                                bad = "is reached after `%s`, which does not bind %s to a new object" % (norm(g.nodes[dnode].ast)[:60], accp)
+                    if bad:
+                        break
+                rep.ob("C10.u-operation-keeps-its-prologue", alg, callee.name, w, bad is None,
+                       ("writes into an object made in this call" if feasible_any else "only on the step that creates the accumulator") if bad is None else
+                       "this write into the accumulator %s: the operations translated on earlier steps keep that object, their prologue changes under them" % bad, node=w)
+
+    # ------------------------------------------------------------------ (v)  F288
+    def rule_v() -> None:
+        rep.rule("C10.v-pipeline-returns-declared-class",
+                 "in the modules a request passes (parser, algebra, processor, update) a function whose return annotation is one class returns, at every `return`, a value whose "
+                 "static type (mypy, `type: ignore` comments notwithstanding) is that class: the consumer reads attributes of it. translateUpdate handing back a bare list for the "
+                 "request without operations makes `Graph.update('')` (a legal request: no operations, no change) fail with AttributeError: 'list' object has no attribute 'algebra'", floor=25)
+        n_tu = 0
+        for mn in _UPDATE_PIPELINE:
+            mod = repo.mod(mn)
+            for q, f in mod.functions():
+                ann = f.returns
+                if not isinstance(ann, (ast.Name, ast.Attribute)):
+                    continue
+                want = cls_full(mod, ann)
+                if want is None:
+                    continue
+                for n in own_nodes(f):
+                    if not (isinstance(n, ast.Return) and n.value is not None):
+                        continue
+                    tf = T.type_of(mn, n.value)
+                    if tf is None or (not tf.items and not tf.optional):
+                        continue  # no static type (Any): nothing to compare
+                    bad = [it for it in tf.items if not T.is_subclass(it, want)]
+                    ok = not bad and not tf.optional
+                    if q == "translateUpdate":
+                        n_tu += 1
+                    rep.ob("C10.v-pipeline-returns-declared-class", mod, q, n, ok,
+                           "a %s" % want.rsplit(".", 1)[1] if ok else
+                           "returns a value of type %s where %s is declared: the caller reads attributes of a %s (e.g. `.algebra` in evalUpdate) and fails" % (tf.text[:60], want.rsplit(".", 1)[1], want.rsplit(".", 1)[1]), node=n)
+        if n_tu < 2:
+            raise AnalysisError("translateUpdate: expected >= 2 typed returns (request without and with operations), found %d" % n_tu)
+
+    # ------------------------------------------------------------------ (w)  F289
+    def rule_w() -> None:
+        rep.rule("C10.w-request-grammar-iterates",
+                 "no symbol of the SPARQL grammar (parser.py) can end a match of its own definition (tail position: last operand of a sequence, or followed only by operands that can "
+                 "match nothing; through Optional / alternatives / other symbols): that is a list written as right recursion, `X <<= item + Optional(sep + X)`, and every item costs "
+                 "Python stack frames in pyparsing - a request of 75 operations separated by ';' (or a long triples block) fails with RecursionError. Lists are iterations "
+                 "(ZeroOrMore); recursion is left to bracketed nesting, whose closing delimiter follows the inner symbol", floor=25)
+        tg = H.TailGrammar(Grammar(par).defs)
+        unit = [s for s in ("UpdateUnit",) if s in tg.defs]
+        if not unit:
+            raise AnalysisError("parser.py: UpdateUnit vanished")
+        request_syms = tg.refs("UpdateUnit")
+        if len(request_syms) < 30:
+            raise AnalysisError("parser.py: expected >= 30 symbols below UpdateUnit, found %d" % len(request_syms))
+        checked = set()
+        for x in sorted(tg.forwards | {"UpdateUnit"} | {y for y in tg.tail_closure("UpdateUnit")}):
+            via = tg.tail_closure(x)
+            cyc = x in via
+            chain = []
+            if cyc:
+                chain, y = [x], via[x]
+                while y != x and len(chain) < 12:
+                    chain.append(y)
+                    y = via[y]
+            checked.add(x)
+            rep.ob("C10.w-request-grammar-iterates", par, "<grammar>", "symbol %s" % x, not cyc,
+                   "cannot end its own match" if not cyc else
+                   "%s ends its own definition (%s): a list by right recursion, its length is bounded by the recursion limit%s" % (
+                       x, " <- ".join(chain + [x]), "; this symbol is part of an update request" if x in request_syms or x == "UpdateUnit" else ""), node=(tg.defs.get(x) or [par.tree])[-1])
+        rep.info["C10.w_symbols"] = sorted(checked)
+
+    # ------------------------------------------------------------------ (x)  F290
+    def rule_x() -> None:
+        rep.rule("C10.x-update-context-never-fetches",
+                 "QueryContext.__init__ fetches documents for FROM / FROM NAMED graphs the dataset lacks: it reaches, through calls of methods of the class on self (directly or "
+                 "through further such methods), a method that parses a source. Every context an update evaluator constructs must make each such chain of calls infeasible through "
+                 "the constant arguments of the construction (a parameter bound to a literal, or left to its literal default, decides the branch tests that mention it; a method "
+                 "called with a parameter that the caller never re-binds inherits what is known of it): USING <g> selects among the graphs of the store, a missing one is empty. Otherwise "
+                 "`DELETE { ?s ?p ?o } USING <http://example.org/doc> WHERE { ?s ?p ?o }` dereferences the IRI: a document outside the store decides what is deleted, or the operation "
+                 "fails with 'Could not load'", floor=4)
+        qmeths = sp.methods("QueryContext")
+        init = qmeths.get("__init__")
+        if init is None:
+            raise AnalysisError("QueryContext.__init__ vanished")
+        parsers = {m for m, f in qmeths.items() if any(isinstance(c, ast.Call) and isinstance(c.func, ast.Attribute) and c.func.attr == "parse" for c in own_nodes(f, include_nested=True))}
+        if not parsers:
+            raise AnalysisError("QueryContext: no method parses a source any more: rule C10.x has lost its anchor")
+        fetchers = H.reaching_methods(qmeths, parsers)
+
+        def chains(fn: ast.FunctionDef, env: dict, seen: frozenset) -> list[tuple[list[ast.Call], bool]]:
+            """(calls from fn down to a method that parses, can every one of them be reached under env)"""
+            out: list[tuple[list[ast.Call], bool]] = []
+            here = H.entry_env(fn, env)
+            for c, m in H.self_calls(fn, qmeths):
+                if m not in fetchers:
+                    continue
+                feas = H.feasible(sp, fn, c, here)
+                callee = qmeths[m]
+                sub = [] if (m in parsers or m in seen) else chains(callee, H.passed_env(fn, here, callee, c, skip_first=not H.is_static(callee)), seen | {m})
+                if not sub:
+                    out.append(([c], feas))
+                for ch, f2 in sub:
+                    out.append(([c] + ch, feas and f2))
+            return out
+        if not chains(init, {}, frozenset({"__init__"})):
+            raise AnalysisError("QueryContext.__init__ no longer reaches a method that parses a source (%s): rule C10.x has lost its anchor" % sorted(fetchers))
+        n_ctor = 0
+        for q, f in up.functions():
+            for c in own_nodes(f, include_nested=True):
+                if not (isinstance(c, ast.Call) and isinstance(c.func, (ast.Name, ast.Attribute)) and cls_full(up, c.func) == "rdflib.plugins.sparql.sparql.QueryContext"):
+                    continue
+                n_ctor += 1
+                env = H.constant_arg_env(init, c, skip_first=True)
+                for ch, feas in chains(init, env, frozenset({"__init__"})):
+                    how = " -> ".join(norm(x) for x in ch)
+                    rep.ob("C10.x-update-context-never-fetches", up, q, "%s -> __init__: %s" % (norm(c)[:80], how), not feas,
+                           "infeasible under the constant arguments %s" % {k: v for k, v in env.items() if " " not in k} if not feas else
+                           "the context constructed here can reach `%s` in QueryContext.__init__: an update operation other than LOAD dereferences a graph IRI the store does not have" % how, node=c)
+        rep.info["C10.x_constructions"] = n_ctor  # (fewer constructions than on the pinned tree: the floor of the rule reports it, without hiding the verdicts of other rules)
+
+    # ------------------------------------------------------------------ (y)  F291
+    def rule_y() -> None:
+        rep.rule("C10.y-missing-source-fails-first",
+                 "the evaluators that take a (source, target) pair from the request (ADD, MOVE, COPY) obtain the source graph through a helper of the module that raises under a test "
+                 "over the graphs the dataset has (`... ctx.dataset.contexts() ...`: the graph does not exist), and every mutation of the evaluator comes after that call: the operation "
+                 "fails before the target is touched, as the Update specification prescribes. With the source made up as an empty graph, `COPY <http://typo> TO <g>` empties <g>", floor=10)
+
+        def raises_if_missing(fname: str, depth: int = 0) -> bool:
+            hf = up.defs.get(fname)
+            if not isinstance(hf, ast.FunctionDef):
+                return False
+            for r in own_nodes(hf):
+                if isinstance(r, ast.Raise):
+                    for e, _truth in H.atoms(H.guard_facts(up, hf, r)):
+                        if any(isinstance(c, ast.Call) and isinstance(c.func, ast.Attribute) and c.func.attr in ("contexts", "graphs") for c in ast.walk(e)):
+                            return True
+            if depth < 2:
+                # ... or hands on what a helper gave it that raises so
+                for r in own_nodes(hf):
+                    if isinstance(r, ast.Return) and isinstance(r.value, ast.Call) and isinstance(r.value.func, ast.Name) and raises_if_missing(r.value.func.id, depth + 1):
+                        return True
+            return False
+        evaluators = {q: f for q, f in up.functions() if q.startswith("eval") and "." not in q}
+        n_pair = 0
+        for q, f in evaluators.items():
+            if len(f.args.args) < 2:
+                continue
+            un = f.args.args[1].arg
+            pair = None
+            for n in own_nodes(f):
+                if isinstance(n, ast.Assign) and isinstance(n.targets[0], ast.Tuple) and len(n.targets[0].elts) == 2 and all(isinstance(e, ast.Name) for e in n.targets[0].elts) \
+                        and isinstance(n.value, ast.Attribute) and isinstance(n.value.value, ast.Name) and n.value.value.id == un:
+                    pair = [e.id for e in n.targets[0].elts]
+            if pair is None:
+                continue
+            n_pair += 1
+            g = CFG(f)
+            src_calls = [c for c in own_nodes(f) if isinstance(c, ast.Call) and isinstance(c.func, ast.Name) and up.has(c.func.id) and any(isinstance(a, ast.Name) and a.id == pair[0] for a in c.args)]
+            checking = [c for c in src_calls if raises_if_missing(c.func.id)]
+            # ... or the evaluator makes the test itself: a top-level statement that raises under a test over the dataset's contexts()
+            inline = []
+            for r in own_nodes(f):
+                if isinstance(r, ast.Raise) and any(isinstance(c, ast.Call) and isinstance(c.func, ast.Attribute) and c.func.attr in ("contexts", "graphs")
+                                                    for e, _t in H.atoms(H.guard_facts(up, f, r)) for c in ast.walk(e)):
+                    top = r
+                    for p_ in up.parents(r):
+                        if p_ is f:
+                            break
+                        top = p_
+                    if isinstance(top, ast.If) and pair[0] in H._names(top):
+                        inline.append(top)
+            rep.ob("C10.y-missing-source-fails-first", up, q, "source graph: %s" % ", ".join(norm(c) for c in src_calls), bool(checking or inline),
+                   ("%s raises when the graph does not exist" % checking[0].func.id if checking else "tested in the evaluator: `if %s`" % norm(inline[0].test)[:60]) if checking or inline else
+                   "the source graph is obtained without a test that it exists (no helper called with the source raises under a test over the dataset's contexts()): a missing "
+                   "source is made up as an empty graph and the operation goes on to change the target", node=src_calls[0] if src_calls else f)
+            gates = {g.node_of(c, up) for c in checking} | {g.by_ast[id(t)] for t in inline}
+            for n in own_nodes(f):
+                if not gates or not _is_graph_mutation(repo, up.name, n):
+                    continue  # (without an existence test there is nothing to be ordered after: reported above, once)
+                ok = g.must_pass_before(g.node_of(n, up), gates)
+                rep.ob("C10.y-missing-source-fails-first", up, q, n, ok,
+                       "after the existence test of the source" if ok else "this mutation can execute without the source graph having been tested to exist", node=n)
+        rep.info["C10.y_pair_evaluators"] = n_pair
+
+    for sec in (rule_tu, rule_v, rule_w, rule_x, rule_y):
+        _section(rep, repo, sec)
